@@ -227,6 +227,26 @@ Proof.
   - intros q. rewrite in_app_iff; cbn. intuition.
 Qed.
 
+Lemma dev_pop_taken_back ps d p d' q : 0 < ps -> dev_wf ps d -> dev_pop ps d = Some (p, d') ->
+  (ps | q) -> taken d' q -> taken d q \/ q = p.
+Proof.
+  intros Hps (Hb & Hs & Hl & Hbl & Hlh & Hnd & Hf) Hpop Hq Ht. unfold dev_pop in Hpop.
+  destruct (d_lo d <? d_hi d) eqn:E.
+  - inversion Hpop; subst; clear Hpop. unfold taken in *. cbn in *.
+    destruct (N.lt_ge_cases q (d_lo d)) as [Hlt|Hge]; [left; split; [lia|tauto]|].
+    right. destruct (N.eq_dec q (d_lo d)) as [->|Hne]; auto.
+    assert (d_lo d < q) by lia. pose proof (aligned_step ps _ _ Hps Hl Hq H). lia.
+  - destruct (d_tail d) as [|p0 r] eqn:Et; [congruence|]. inversion Hpop; subst; clear Hpop.
+    unfold taken in *. cbn in *. rewrite Et. destruct (N.eq_dec q p) as [->|Hne]; auto.
+    left. split; [tauto|]. cbn. intros [Heq|Hin]; [congruence|tauto].
+Qed.
+
+Lemma dev_push_taken_back d p q : taken (dev_push p d) q -> taken d q /\ q <> p.
+Proof.
+  unfold taken, dev_push. cbn. rewrite in_app_iff. cbn. intros [Hr Hn].
+  split; [split; [exact Hr|tauto]|]. intros Heq. apply Hn. right. left. auto.
+Qed.
+
 (** * Device lists: layout and lookup by physical address *)
 Fixpoint layout (start : N) (l : list dev) (tot : N) : Prop :=
   match l with
@@ -337,18 +357,24 @@ Definition avail (ps : N) (l : list dev) (p : N) : Prop :=
 
 Definition phys_inv (ps : N) (l : list dev) (tot : N) (live : list N) : Prop :=
   0 < ps /\ (ps | tot) /\ layout ps l tot /\ Forall (dev_wf ps) l /\ NoDup live /\
-  forall p, In p live -> (ps | p) /\ exists i, owned l p i.
+  (forall p, In p live -> (ps | p) /\ exists i, owned l p i) /\
+  (* nothing is lost: every page a device handed out and did not get back is accounted for *)
+  (forall i d q, nth_error l i = Some d -> (ps | q) -> taken d q -> In q live).
 
-Lemma phys_inv_sub ps l tot live live' : phys_inv ps l tot live -> NoDup live' ->
-  (forall p, In p live' -> In p live) -> phys_inv ps l tot live'.
-Proof. intros (H1 & H2 & H3 & H4 & H5 & H6) Hn Hs. unfold phys_inv. splits; auto. Qed.
+Lemma phys_inv_equiv ps l tot live live' : phys_inv ps l tot live -> NoDup live' ->
+  (forall p, In p live' <-> In p live) -> phys_inv ps l tot live'.
+Proof.
+  intros (H1 & H2 & H3 & H4 & H5 & H6 & H7) Hn Hs. unfold phys_inv. splits; auto.
+  - intros p Hp. apply H6. apply Hs. auto.
+  - intros i d q Hi Hq Ht. apply Hs. eauto.
+Qed.
 
 Lemma taken_in_range ps d p : dev_wf ps d -> taken d p -> d_base d <= p < d_hi d.
 Proof. intros (Hb & Hs & Hl & Hbl & Hlh & _) [Hr _]. lia. Qed.
 
 Lemma owned_dev_of_pa ps l tot live p i : phys_inv ps l tot live -> owned l p i -> dev_of_pa l p = Some i.
 Proof.
-  intros (H1 & H2 & H3 & H4 & H5 & H6) (d & Hn & Ht).
+  intros (H1 & H2 & H3 & H4 & H5 & H6 & H7) (d & Hn & Ht).
   eapply dev_of_pa_complete; eauto. eapply taken_in_range; eauto.
   rewrite Forall_forall in H4. apply H4. eapply nth_error_In; eauto.
 Qed.
@@ -365,7 +391,7 @@ Qed.
 (** a free page is not live: the heart of "never handed out twice" *)
 Lemma avail_not_live ps l tot live p : phys_inv ps l tot live -> avail ps l p -> ~ In p live.
 Proof.
-  intros Hinv (i & d & Hn & Hf) Hin. pose proof Hinv as (H1 & H2 & H3 & H4 & H5 & H6).
+  intros Hinv (i & d & Hn & Hf) Hin. pose proof Hinv as (H1 & H2 & H3 & H4 & H5 & H6 & H7).
   destruct (H6 _ Hin) as (_ & j & e & Hj & Ht).
   rewrite Forall_forall in H4.
   assert (Hd : dev_wf ps d) by (apply H4; eapply nth_error_In; eauto).
@@ -376,19 +402,40 @@ Proof.
 Qed.
 
 (** replacing device i by one that differs in a controlled way *)
-Lemma phys_upd ps l tot live i d d' :
-  phys_inv ps l tot live -> nth_error l i = Some d -> dev_wf ps d' -> same_geom d d' ->
-  (forall q, In q live -> taken d q -> taken d' q) ->
-  phys_inv ps (upd_nth i d' l) tot live.
+Lemma phys_upd ps l tot live live' i d d' :
+  phys_inv ps l tot live -> nth_error l i = Some d -> dev_wf ps d' -> same_geom d d' -> NoDup live' ->
+  (forall q, In q live' -> (In q live /\ (taken d q -> taken d' q)) \/ ((ps | q) /\ taken d' q)) ->
+  (forall q, In q live -> ~ taken d q -> In q live') ->
+  (forall q, (ps | q) -> taken d' q -> In q live') ->
+  phys_inv ps (upd_nth i d' l) tot live'.
 Proof.
-  intros (H1 & H2 & H3 & H4 & H5 & H6) Hn Hwf Hg Hk. unfold phys_inv. splits; auto.
+  intros (H1 & H2 & H3 & H4 & H5 & H6 & H7) Hn Hwf Hg Hnd Hk Hother Hcomp. unfold phys_inv. splits; auto.
   - eapply layout_geom; [|exact H3]. symmetry. eapply geom_upd_nth; eauto.
   - apply Forall_upd_nth; auto.
-  - intros p Hp. destruct (H6 _ Hp) as (Ha & j & e & Hj & Ht). split; auto.
-    destruct (Nat.eq_dec i j) as [->|Hne].
-    + rewrite Hn in Hj. inversion Hj; subst. exists j, d'. split; auto.
-      apply nth_upd_nth_same. eapply nth_error_lt; eauto.
-    + exists j, e. split; auto. rewrite nth_upd_nth_other; auto.
+  - intros p Hp. destruct (Hk _ Hp) as [[Hl Hkeep]|[Ha Ht]].
+    + destruct (H6 _ Hl) as (Ha & j & e & Hj & Ht). split; auto.
+      destruct (Nat.eq_dec i j) as [->|Hne].
+      * rewrite Hn in Hj. inversion Hj; subst. exists j, d'. split; auto.
+        apply nth_upd_nth_same. eapply nth_error_lt; eauto.
+      * exists j, e. split; auto. rewrite nth_upd_nth_other; auto.
+    + split; auto. exists i, d'. split; auto. apply nth_upd_nth_same. eapply nth_error_lt; eauto.
+  - intros j e q Hj Hq Ht. destruct (Nat.eq_dec i j) as [->|Hne].
+    + rewrite nth_upd_nth_same in Hj by (eapply nth_error_lt; eauto). inversion Hj; subst. auto.
+    + rewrite nth_upd_nth_other in Hj by auto. apply Hother; [eapply H7; eauto|].
+      intros Htd. rewrite Forall_forall in H4.
+      assert (Hd : dev_wf ps d) by (apply H4; eapply nth_error_In; eauto).
+      assert (He : dev_wf ps e) by (apply H4; eapply nth_error_In; eauto).
+      apply Hne. eapply layout_disjoint; eauto; eapply taken_in_range; eauto.
+Qed.
+
+Lemma phys_upd_same ps l tot live i d d' :
+  phys_inv ps l tot live -> nth_error l i = Some d -> dev_wf ps d' -> same_geom d d' ->
+  (forall q, taken d q <-> taken d' q) -> phys_inv ps (upd_nth i d' l) tot live.
+Proof.
+  intros Hinv Hn Hwf Hg Hsame. pose proof Hinv as (H1 & H2 & H3 & H4 & H5 & H6 & H7).
+  eapply phys_upd; eauto.
+  - intros q Hq. left. split; auto. apply Hsame.
+  - intros q Hq Ht. eapply H7; eauto. apply Hsame; auto.
 Qed.
 
 Lemma avail_upd ps l i d d' p : nth_error l i = Some d ->
@@ -424,18 +471,18 @@ Proof.
   intros Hinv Hpop. unfold pop_real in Hpop.
   destruct (nth_error l i) as [d|] eqn:Hn; [|congruence].
   destruct (dev_pop ps d) as [[p0 d']|] eqn:Hp; [|congruence]. inversion Hpop; subst; clear Hpop.
-  pose proof Hinv as (H1 & H2 & H3 & H4 & H5 & H6).
+  pose proof Hinv as (H1 & H2 & H3 & H4 & H5 & H6 & H7).
   assert (Hd : dev_wf ps d) by (rewrite Forall_forall in H4; apply H4; eapply nth_error_In; eauto).
   destruct (dev_pop_spec _ _ _ _ H1 Hd Hp) as (Hwf & Hg & Ha & Hfree & Htk & Hkd & Hmb & Hnx & Hkeep & Hmono).
   assert (Hav : avail ps l p) by (exists i, d; auto).
   assert (Hnl : ~ In p live) by (eapply avail_not_live; eauto).
   split; [constructor|].
-  - assert (Hu : phys_inv ps (upd_nth i d' l) tot live).
-    { eapply phys_upd; eauto. intros q _ Hq. apply Hkeep; auto. }
-    destruct Hu as (U1 & U2 & U3 & U4 & U5 & U6). unfold phys_inv. splits; auto.
-    + cbn. constructor; auto.
-    + intros q [<-|Hq]; auto. split; auto. exists i, d'. split; auto.
-      apply nth_upd_nth_same. eapply nth_error_lt; eauto.
+  - cbn [app]. eapply (phys_upd ps l tot live (p :: live) i d d'); eauto.
+    + constructor; auto.
+    + intros q [<-|Hq]; [right; auto|]. left. split; auto. intros Ht. apply Hkeep; auto.
+    + intros q Hq _. right. auto.
+    + intros q Hq Ht. destruct (dev_pop_taken_back _ _ _ _ _ H1 Hd Hp Hq Ht) as [Ht'| ->]; [|left; auto].
+      right. eapply H7; eauto.
   - eapply geom_upd_nth; eauto.
   - intros q [<-|[]]. auto.
   - intros q Hq. eapply avail_upd; [exact Hn| |exact Hq]. intros x Hx. apply Hmono; auto.
@@ -463,7 +510,7 @@ Proof.
   set (d' := d <| d_next := _ |>).
   assert (Hg : same_geom d d') by (split; auto).
   constructor.
-  - eapply phys_upd; eauto.
+  - eapply phys_upd_same; eauto; [|intros q; reflexivity].
     destruct A1 as (_ & _ & _ & H4 & _). rewrite Forall_forall in H4.
     apply (H4 d). eapply nth_error_In; eauto.
   - rewrite <- A2. eapply geom_upd_nth; eauto.
@@ -548,7 +595,7 @@ Lemma push_to_inv ps l tot live p i :
   map d_kind (push_to i p l) = map d_kind l /\
   (forall q, avail ps (push_to i p l) q <-> avail ps l q \/ q = p).
 Proof.
-  intros Hinv Hd. pose proof Hinv as (H1 & H2 & H3 & H4 & H5 & H6).
+  intros Hinv Hd. pose proof Hinv as (H1 & H2 & H3 & H4 & H5 & H6 & H7).
   destruct (H6 p (or_introl eq_refl)) as (Ha & j & Ho).
   assert (j = i) by (pose proof (owned_dev_of_pa _ _ _ _ _ _ Hinv Ho); congruence). subst j.
   destruct Ho as (d & Hn & Ht). unfold push_to. rewrite Hn.
@@ -556,9 +603,11 @@ Proof.
   destruct (dev_push_spec ps d p Hwf Ha Ht) as (Hwf' & Hg & Hkeep & Hfree).
   inversion H5; subst.
   splits.
-  - eapply phys_upd; eauto.
-    + eapply phys_inv_sub; eauto. intros; cbn; auto.
-    + intros q Hq Htq. apply Hkeep; auto. intros ->. auto.
+  - eapply (phys_upd ps l tot (p :: live) live i d (dev_push p d)); eauto.
+    + intros q Hq. left. split; [right; auto|]. intros Htq. apply Hkeep; auto. intros ->. auto.
+    + intros q [<-|Hq] Hnt; [tauto|auto].
+    + intros q Hq Htq. apply dev_push_taken_back in Htq. destruct Htq as [Htq Hne].
+      destruct (H7 i d q Hn Hq Htq) as [Heq|Hin]; [congruence|auto].
   - eapply geom_upd_nth; eauto.
   - eapply map_upd_nth; eauto.
   - intros q. split.
@@ -588,6 +637,8 @@ Definition entry_ok (ps : N) (l : list dev) (e : key * page) : Prop :=
 Definition coreX (ps : N) (l : list dev) (tot : N) (X : list N) (t : list (key * page)) : Prop :=
   phys_inv ps l tot (X ++ pas t) /\ NoDup (map fst t) /\ Forall (entry_ok ps l) t.
 Definition core ps l tot t := coreX ps l tot [] t.
+(** the table-level invariant of a state; pages dropped by migration preparation stay pending for ever *)
+Definition cst (s : st) : Prop := coreX (psz s) (devs s) (total s) (g_leaked s) (pt s).
 
 Lemma entry_ok_geom ps l l' e : geom l' = geom l -> entry_ok ps l e -> entry_ok ps l' e.
 Proof.
@@ -612,7 +663,7 @@ Lemma core_insert ps l tot X t k pg di :
   coreX ps l tot X (t ++ [(k, pg)]).
 Proof.
   intros (H1 & H2 & H3) Hm Hk Ha Hd Hdev. unfold coreX. splits.
-  - eapply phys_inv_sub; eauto.
+  - eapply phys_inv_equiv; eauto.
     + destruct H1 as (_ & _ & _ & _ & Hn & _). rewrite pas_app. cbn in *.
       rewrite app_assoc. eapply Permutation_NoDup; [|exact Hn]. apply Permutation_cons_append.
     + intros p. rewrite pas_app. cbn. rewrite !in_app_iff. cbn. intuition.
@@ -623,55 +674,71 @@ Proof.
     unfold entry_ok. cbn. splits; auto. exists di. auto.
 Qed.
 
-Lemma core_update ps l tot X t k pg di :
-  coreX ps l tot (p_pa pg :: X) t -> amem keqb k t = true ->
+(** replacing the page of an existing entry: the previous physical page
+    becomes a pending page *)
+Lemma core_update ps l tot X t k pg old di :
+  coreX ps l tot (p_pa pg :: X) t -> alookup keqb k t = Some old ->
   k = (p_pid pg, p_va pg) -> p_dev pg = N.of_nat di -> dev_of_pa l (p_pa pg) = Some di ->
-  coreX ps l tot X (aset keqb k pg t) /\
-  (forall p, In p (X ++ pas (aset keqb k pg t)) -> In p (p_pa pg :: X ++ pas t)) /\
+  coreX ps l tot (p_pa old :: X) (aset keqb k pg t) /\
+  (forall p, In p (pas (aset keqb k pg t)) -> p = p_pa pg \/ In p (pas t)) /\
   map fst (aset keqb k pg t) = map fst t.
 Proof.
-  intros (H1 & H2 & H3) Hm Hk Hd Hdev.
-  destruct (aset_split keqb keqb_eq k pg t Hm) as (t1 & old & t2 & Ht & Hs & Hn1).
+  intros (H1 & H2 & H3) Hl Hk Hd Hdev.
+  destruct (alookup_split keqb keqb_eq k old t Hl) as (t1 & t2 & Ht & Hn1).
+  assert (Hs : aset keqb k pg t = t1 ++ (k, pg) :: t2).
+  { subst t. clear -Hn1. induction t1 as [|[k' v'] t1 IH]; cbn.
+    - rewrite keqb_refl. auto.
+    - cbn in Hn1. destruct (keqb k k') eqn:E; [apply keqb_eq in E; subst; tauto|]. rewrite IH; auto. }
   rewrite Hs. subst t.
-  assert (Hsub : forall p, In p (X ++ pas (t1 ++ (k, pg) :: t2)) -> In p (p_pa pg :: X ++ pas (t1 ++ (k, old) :: t2))).
-  { intros p. rewrite !pas_app. cbn. rewrite !in_app_iff. cbn. intuition. }
   unfold coreX. splits; auto.
-  - eapply phys_inv_sub; eauto.
-    destruct H1 as (_ & _ & _ & _ & Hn & _). rewrite !pas_app in *. cbn in *.
-    assert (Hp : Permutation (p_pa pg :: X ++ pas t1 ++ p_pa old :: pas t2)
-                             (p_pa old :: X ++ pas t1 ++ p_pa pg :: pas t2)).
-    { rewrite !app_assoc. rewrite <- !Permutation_middle. apply perm_swap. }
-    apply (Permutation_NoDup Hp) in Hn. inversion Hn; auto.
+  - eapply phys_inv_equiv; eauto.
+    + destruct H1 as (_ & _ & _ & _ & Hn & _). rewrite !pas_app in *. cbn in *.
+      assert (Hp : Permutation (p_pa pg :: X ++ pas t1 ++ p_pa old :: pas t2)
+                               (p_pa old :: X ++ pas t1 ++ p_pa pg :: pas t2)).
+      { rewrite !app_assoc. rewrite <- !Permutation_middle. apply perm_swap. }
+      apply (Permutation_NoDup Hp) in Hn. exact Hn.
+    + intros p. rewrite !pas_app. cbn. rewrite !in_app_iff. cbn. intuition.
   - rewrite !map_app in *. cbn in *. auto.
   - apply Forall_app in H3. destruct H3 as [F1 F2]. inversion F2; subst. apply Forall_app. split; auto. constructor; auto.
     destruct H3 as (E1 & E2 & _). cbn in *. unfold entry_ok. cbn.
     inversion E1. splits; auto; try congruence. exists di. auto.
+  - intros p. rewrite !pas_app. cbn. rewrite !in_app_iff. cbn. intuition.
   - rewrite !map_app. cbn. auto.
 Qed.
 
-Lemma core_remove ps l tot t k pg di :
-  core ps l tot t -> alookup keqb k t = Some pg -> dev_of_pa l (p_pa pg) = Some di ->
-  core ps (push_to di (p_pa pg) l) tot (adel keqb k t) /\
-  (forall p, In p (pas (adel keqb k t)) -> In p (pas t)) /\
-  (forall q, avail ps (push_to di (p_pa pg) l) q <-> avail ps l q \/ q = p_pa pg) /\
-  geom (push_to di (p_pa pg) l) = geom l /\ map d_kind (push_to di (p_pa pg) l) = map d_kind l.
+(** a pending page goes back to its device *)
+Lemma coreX_release ps l tot X t p di :
+  coreX ps l tot (p :: X) t -> dev_of_pa l p = Some di ->
+  coreX ps (push_to di p l) tot X t /\
+  (forall q, avail ps (push_to di p l) q <-> avail ps l q \/ q = p) /\
+  geom (push_to di p l) = geom l /\ map d_kind (push_to di p l) = map d_kind l.
 Proof.
-  intros (H1 & H2 & H3) Hl Hdev. cbn in H1.
+  intros (H1 & H2 & H3) Hdev. cbn in H1.
+  destruct (push_to_inv _ _ _ _ _ _ H1 Hdev) as (P1 & P2 & P3 & P4).
+  splits; auto. unfold coreX. splits; auto.
+  eapply Forall_impl; [|exact H3]. intros e. apply entry_ok_geom; auto.
+Qed.
+
+(** removing an entry: its physical page becomes a pending page *)
+Lemma core_remove ps l tot X t k pg :
+  coreX ps l tot X t -> alookup keqb k t = Some pg ->
+  coreX ps l tot (p_pa pg :: X) (adel keqb k t) /\
+  (forall p, In p (pas (adel keqb k t)) -> In p (pas t)).
+Proof.
+  intros (H1 & H2 & H3) Hl.
   destruct (alookup_split keqb keqb_eq k pg t Hl) as (t1 & t2 & Ht & Hn1). subst t.
   assert (Hn2 : ~ In k (map fst t2)).
   { rewrite map_app in H2. cbn in H2. apply NoDup_app_r in H2. inversion H2; auto. }
   rewrite (adel_split keqb keqb_eq); auto.
-  assert (Hpi : phys_inv ps l tot (p_pa pg :: pas (t1 ++ t2))).
-  { eapply phys_inv_sub; eauto.
-    - destruct H1 as (_ & _ & _ & _ & Hn & _). rewrite !pas_app in *. cbn in *.
-      eapply Permutation_NoDup; [|exact Hn]. symmetry. apply Permutation_middle.
-    - intros p. rewrite !pas_app. cbn. rewrite !in_app_iff. cbn. intuition. }
-  destruct (push_to_inv _ _ _ _ _ _ Hpi Hdev) as (P1 & P2 & P3 & P4).
-  splits; auto.
-  - unfold core, coreX. cbn. splits; auto.
+  splits.
+  - unfold coreX. splits.
+    + eapply phys_inv_equiv; eauto.
+      * destruct H1 as (_ & _ & _ & _ & Hn & _). rewrite !pas_app in *. cbn in *.
+        eapply Permutation_NoDup; [|exact Hn].
+        rewrite !app_assoc. symmetry. apply Permutation_middle.
+      * intros p. rewrite !pas_app. cbn. rewrite !in_app_iff. cbn. intuition.
     + rewrite map_app in *. cbn in H2. eapply NoDup_remove_1; eauto.
-    + apply Forall_app in H3. destruct H3 as [F1 F2]. inversion F2; subst. apply Forall_app.
-      split; (eapply Forall_impl; [|eassumption]); intros e; apply entry_ok_geom; auto.
+    + apply Forall_app in H3. destruct H3 as [F1 F2]. inversion F2; subst. apply Forall_app. split; auto.
   - intros p. unfold pas. rewrite !map_app. cbn. rewrite !in_app_iff. cbn. intuition.
 Qed.
 
@@ -686,7 +753,7 @@ Definition bufs_ok (s : st) : Prop :=
                     buf_hi (psz s) a <= buf_lo b \/ buf_hi (psz s) b <= buf_lo a) (g_bufs s).
 
 Definition Inv (s : st) : Prop :=
-  core (psz s) (devs s) (total s) (pt s) /\ mirror s = pt s /\
+  cst s /\ mirror s = pt s /\
   Forall (fun e => (psz s | snd e)) (next_va s) /\ bufs_ok s.
 
 Lemma psz_pos s : 0 < psz s.
@@ -694,17 +761,17 @@ Proof. unfold psz. apply N.neq_0_lt_0. apply N.pow_nonzero. lia. Qed.
 
 (** the effect of operations that only take pages from the devices *)
 Record grow (s s' : st) : Prop := {
-  gr_core : core (psz s) (devs s') (total s) (pt s');
+  gr_core : coreX (psz s) (devs s') (total s) (g_leaked s) (pt s');
   gr_mirror : mirror s' = pt s';
   gr_frame : s' = s <| devs := devs s' |> <| pt := pt s' |> <| mirror := mirror s' |>;
   gr_geom : geom (devs s') = geom (devs s);
   gr_kind : map d_kind (devs s') = map d_kind (devs s);
   gr_new : forall pa, In pa (pas (pt s')) -> In pa (pas (pt s)) \/ avail (psz s) (devs s) pa;
-  gr_mono : forall p, avail (psz s) (devs s') p -> avail (psz s) (devs s) p;
+  gr_mono : forall p, avail (psz s) (devs s') p -> avail (psz s) (devs s) p \/ In p (pas (pt s));
   gr_keys : forall k, In k (map fst (pt s)) -> In k (map fst (pt s'))
 }.
 
-Lemma grow_refl s : core (psz s) (devs s) (total s) (pt s) -> mirror s = pt s -> grow s s.
+Lemma grow_refl s : cst s -> mirror s = pt s -> grow s s.
 Proof. intros. constructor; auto. destruct s; reflexivity. Qed.
 
 Lemma frame_psz s s' : s' = s <| devs := devs s' |> <| pt := pt s' |> <| mirror := mirror s' |> ->
@@ -715,9 +782,11 @@ Lemma grow_trans s s1 s2 : grow s s1 -> grow s1 s2 -> grow s s2.
 Proof.
   intros [A1 A2 A3 A4 A5 A6 A7 A8] [B1 B2 B3 B4 B5 B6 B7 B8].
   destruct (frame_psz _ _ A3) as [Hp Ht]. rewrite Hp, Ht in *.
+  assert (Hl : g_leaked s1 = g_leaked s) by (rewrite A3; destruct s; reflexivity). rewrite Hl in *.
   constructor; auto; try congruence.
   - rewrite B3, A3. destruct s; reflexivity.
-  - intros pa Hpa. destruct (B6 _ Hpa); auto.
+  - intros pa Hpa. destruct (B6 _ Hpa) as [H|H]; auto. destruct (A7 _ H); auto.
+  - intros q Hq. destruct (B7 _ Hq) as [H|H]; auto. destruct (A6 _ H); auto.
 Qed.
 
 Lemma pt_insert_spec k v t t' : pt_insert k v t = Some t' -> amem keqb k t = false /\ t' = t ++ [(k, v)].
@@ -729,11 +798,11 @@ Proof. unfold pt_update. destruct (amem keqb k t); intros H; inversion H; auto. 
 Lemma pt_remove_spec k t t' : pt_remove k t = Some t' -> amem keqb k t = true /\ t' = adel keqb k t.
 Proof. unfold pt_remove. destruct (amem keqb k t); intros H; inversion H; auto. Qed.
 
-Lemma core_phys ps l tot t : core ps l tot t -> phys_inv ps l tot (pas t).
+Lemma core_phys s : cst s -> phys_inv (psz s) (devs s) (total s) (g_leaked s ++ pas (pt s)).
 Proof. intros (H & _). exact H. Qed.
 
 Lemma alloc_loop_grow k : forall pid va dv uni s s',
-  core (psz s) (devs s) (total s) (pt s) -> mirror s = pt s -> (psz s | va) ->
+  cst s -> mirror s = pt s -> (psz s | va) ->
   alloc_loop k pid va dv uni s = Some s' -> grow s s'.
 Proof.
   induction k as [|k IH]; cbn [alloc_loop]; intros pid va dv uni s s' Hc Hm Ha H.
@@ -742,11 +811,11 @@ Proof.
     destruct (dev_of_pa l' pa) as [di|] eqn:E2; [|congruence].
     destruct (pt_insert _ _ (pt s)) as [pt'|] eqn:E3; [|congruence].
     apply pt_insert_spec in E3. destruct E3 as [Hf ->].
-    destruct (alloc_page_took _ _ _ _ _ _ _ (core_phys _ _ _ _ Hc) E1) as [Ht _].
+    destruct (alloc_page_took _ _ _ _ _ _ _ (core_phys _ Hc) E1) as [Ht _].
     pose proof (coreX_took _ _ _ _ _ _ _ Hc Ht) as Hc1.
     set (pg := mkPage pid va pa (N.of_nat di) uni) in *.
-    assert (Hc2 : core (psz s) l' (total s) (pt s ++ [((pid, va), pg)])).
-    { eapply (core_insert _ _ _ [] _ _ pg di); eauto. }
+    assert (Hc2 : coreX (psz s) l' (total s) (g_leaked s) (pt s ++ [((pid, va), pg)])).
+    { eapply (core_insert _ _ _ (g_leaked s) _ _ pg di); eauto. }
     set (s1 := s <| devs := l' |> <| pt := _ |> <| mirror := _ |>) in H.
     assert (G1 : grow s s1).
     { constructor; subst s1; cbn; auto.
@@ -755,7 +824,7 @@ Proof.
       - apply (tk_kind _ _ _ _ _ _ Ht).
       - intros q. rewrite map_app. cbn. rewrite in_app_iff. cbn. intros [Hq|[<-|[]]]; auto.
         right. apply (tk_avail _ _ _ _ _ _ Ht). cbn; auto.
-      - apply (tk_mono _ _ _ _ _ _ Ht).
+      - intros q Hq. left. apply (tk_mono _ _ _ _ _ _ Ht). auto.
       - intros k0. rewrite map_app, in_app_iff. auto. }
     eapply grow_trans; [exact G1|].
     eapply IH; [| | |exact H]; subst s1.
@@ -764,21 +833,27 @@ Proof.
     + cbn. apply aligned_add; auto.
 Qed.
 
-Lemma coreX_rev ps l tot X t : coreX ps l tot (rev X) t -> coreX ps l tot X t.
+Lemma coreX_rev ps l tot X Y t : coreX ps l tot (rev X ++ Y) t -> coreX ps l tot (X ++ Y) t.
 Proof.
   intros (H1 & H2 & H3). unfold coreX. splits; auto.
-  eapply phys_inv_sub; eauto.
+  eapply phys_inv_equiv; eauto.
   - destruct H1 as (_ & _ & _ & _ & Hn & _). eapply Permutation_NoDup; [|exact Hn].
-    apply Permutation_app_tail. symmetry. apply Permutation_rev.
-  - intros p. rewrite !in_app_iff, <- in_rev. auto.
+    apply Permutation_app_tail. apply Permutation_app_tail. symmetry. apply Permutation_rev.
+  - intros p. rewrite !in_app_iff, <- in_rev. tauto.
 Qed.
 
+Lemma frame3_fields s s' : s' = s <| devs := devs s' |> <| pt := pt s' |> <| mirror := mirror s' |> ->
+  psz s' = psz s /\ total s' = total s /\ g_leaked s' = g_leaked s.
+Proof. intros ->. destruct s; cbn. auto. Qed.
+
 Lemma given_loop_spec : forall X pid va uni s s',
-  coreX (psz s) (devs s) (total s) X (pt s) -> mirror s = pt s ->
+  coreX (psz s) (devs s) (total s) (X ++ g_leaked s) (pt s) -> mirror s = pt s ->
   given_loop pid va uni X s = Some s' ->
-  core (psz s) (devs s) (total s) (pt s') /\ mirror s' = pt s' /\
-  s' = s <| pt := pt s' |> <| mirror := mirror s' |> /\
-  (forall p, In p (pas (pt s')) -> In p (X ++ pas (pt s))) /\
+  coreX (psz s) (devs s') (total s) (g_leaked s) (pt s') /\ mirror s' = pt s' /\
+  s' = s <| devs := devs s' |> <| pt := pt s' |> <| mirror := mirror s' |> /\
+  geom (devs s') = geom (devs s) /\ map d_kind (devs s') = map d_kind (devs s) /\
+  (forall p, In p (pas (pt s')) -> In p X \/ In p (pas (pt s))) /\
+  (forall q, avail (psz s) (devs s') q -> avail (psz s) (devs s) q \/ In q (pas (pt s)) \/ In q X) /\
   map fst (pt s') = map fst (pt s).
 Proof.
   induction X as [|pa X IH]; cbn [given_loop]; intros pid va uni s s' Hc Hm H.
@@ -787,40 +862,62 @@ Proof.
     destruct (pt_update _ _ (pt s)) as [pt'|] eqn:E2; [|congruence].
     apply pt_update_spec in E2. destruct E2 as [Hf ->].
     set (pg := mkPage pid va pa (N.of_nat di) uni) in *.
-    destruct (core_update _ _ _ X (pt s) (pid, va) pg di Hc Hf eq_refl eq_refl E1) as (Hc1 & Hsub & Hk).
-    apply IH in H; cbn; auto; [|rewrite Hm; auto].
-    cbn in H. destruct H as (A1 & A2 & A3 & A4 & A5). splits; auto.
-    + intros p Hp. apply A4 in Hp. apply Hsub in Hp. cbn in *. auto.
-    + congruence.
+    rewrite Hm in H. unfold amem in Hf.
+    destruct (alookup keqb (pid, va) (pt s)) as [old|] eqn:El; [|congruence].
+    destruct (dev_of_pa (devs s) (p_pa old)) as [dj|] eqn:E3; [|congruence].
+    cbn [app] in Hc.
+    destruct (core_update _ _ _ (X ++ g_leaked s) (pt s) (pid, va) pg old di Hc El eq_refl eq_refl E1) as (Hc1 & Hsub & Hk).
+    destruct (coreX_release _ _ _ _ _ _ _ Hc1 E3) as (Hc2 & Hav & Hg & Hkd).
+    assert (Hold : In (p_pa old) (pas (pt s))).
+    { apply (alookup_In keqb keqb_eq) in El. unfold pas. apply (in_map (fun e => p_pa (snd e)) _ _ El). }
+    apply IH in H; cbn; auto.
+    cbn in H. destruct H as (A1 & A2 & A3 & A4 & A5 & A6 & A7 & A8).
+    split; [exact A1|]. split; [exact A2|]. split; [rewrite A3; destruct s; reflexivity|].
+    split; [rewrite A4; exact Hg|]. split; [rewrite A5; exact Hkd|].
+    split; [|split; [|rewrite A8; exact Hk]].
+    + intros p Hp. destruct (A6 _ Hp) as [Hx|Hx]; [left; right; auto|].
+      destruct (Hsub _ Hx) as [->|Hy]; [left; left; auto|right; auto].
+    + intros q Hq. destruct (A7 _ Hq) as [Hx|[Hx|Hx]].
+      * apply Hav in Hx. destruct Hx as [Hx| ->]; auto.
+      * destruct (Hsub _ Hx) as [->|Hy]; [right; right; left; auto|right; left; auto].
+      * right. right. right. auto.
 Qed.
 
 Lemma remap_grow pid va bytes dv s s' :
-  core (psz s) (devs s) (total s) (pt s) -> mirror s = pt s ->
+  cst s -> mirror s = pt s ->
   remap pid va bytes dv s = Some s' -> grow s s' /\ map fst (pt s') = map fst (pt s).
 Proof.
   intros Hc Hm H. unfold remap in H.
   destruct (alloc_multi _ _ dv (devs s)) as [[X l']|] eqn:E; [|congruence].
-  destruct (alloc_multi_took _ _ _ _ _ _ _ _ (core_phys _ _ _ _ Hc) E) as [Ht _].
-  pose proof (coreX_took _ _ _ _ _ _ _ Hc Ht) as Hc1. rewrite app_nil_r in Hc1. apply coreX_rev in Hc1.
+  destruct (alloc_multi_took _ _ _ _ _ _ _ _ (core_phys _ Hc) E) as [Ht _].
+  pose proof (coreX_took _ _ _ _ _ _ _ Hc Ht) as Hc1. apply coreX_rev in Hc1.
   apply given_loop_spec in H; cbn; auto.
-  cbn in H. destruct H as (A1 & A2 & A3 & A4 & A5). split; auto.
-  assert (Hd : devs s' = l') by (rewrite A3; reflexivity).
-  constructor; auto; try (rewrite Hd).
+  cbn in H. change (psz (s <| devs := l' |>)) with (psz s) in H.
+  destruct H as (A1 & A2 & A3 & A4 & A5 & A6 & A7 & A8). split; auto.
+  constructor.
   - exact A1.
+  - exact A2.
   - rewrite A3. destruct s; reflexivity.
-  - apply (tk_geom _ _ _ _ _ _ Ht).
-  - apply (tk_kind _ _ _ _ _ _ Ht).
-  - intros q Hq. apply A4 in Hq. apply in_app_iff in Hq. destruct Hq as [Hq|Hq]; auto.
+  - rewrite A4. apply (tk_geom _ _ _ _ _ _ Ht).
+  - rewrite A5. apply (tk_kind _ _ _ _ _ _ Ht).
+  - intros q Hq. destruct (A6 _ Hq) as [Hx|Hx]; auto.
     right. apply (tk_avail _ _ _ _ _ _ Ht). apply -> in_rev. auto.
-  - apply (tk_mono _ _ _ _ _ _ Ht).
-  - intros k. rewrite A5. auto.
+  - intros q Hq. destruct (A7 _ Hq) as [Hx|[Hx|Hx]]; auto.
+    + left. apply (tk_mono _ _ _ _ _ _ Ht). auto.
+    + left. apply (tk_avail _ _ _ _ _ _ Ht). apply -> in_rev. auto.
+  - intros k. rewrite A8. auto.
 Qed.
 
-Lemma alloc_given_grow pid dv va uni s pg s' :
-  core (psz s) (devs s) (total s) (pt s) -> mirror s = pt s ->
+(** migration preparation: the previous physical page stays pending for ever *)
+Lemma alloc_given_spec pid dv va uni s pg s' :
+  cst s -> mirror s = pt s ->
   alloc_given pid dv va uni s = Some (pg, s') ->
-  grow s s' /\ map fst (pt s') = map fst (pt s) /\ p_pid pg = pid /\ p_va pg = va /\
+  coreX (psz s) (devs s') (total s) (g_leaked s') (pt s') /\ mirror s' = pt s' /\
+  s' = s <| devs := devs s' |> <| mirror := mirror s' |> <| pt := pt s' |> <| g_leaked := g_leaked s' |> /\
+  geom (devs s') = geom (devs s) /\ map d_kind (devs s') = map d_kind (devs s) /\
+  map fst (pt s') = map fst (pt s) /\ p_pid pg = pid /\ p_va pg = va /\
   pt s' = aset keqb (pid, va) pg (pt s) /\
+  (forall q, In q (pas (pt s')) -> In q (pas (pt s)) \/ avail (psz s) (devs s) q) /\
   (forall d, nth_error (devs s) dv = Some d -> is_unified (d_kind d) = false -> p_dev pg = N.of_nat dv).
 Proof.
   intros Hc Hm H. unfold alloc_given in H.
@@ -828,21 +925,19 @@ Proof.
   destruct (dev_of_pa l' pa) as [di|] eqn:E2; [|congruence].
   destruct (pt_update _ _ (pt s)) as [pt'|] eqn:E3; [|congruence].
   apply pt_update_spec in E3. destruct E3 as [Hf ->]. inversion H; subst; clear H.
-  destruct (alloc_page_took _ _ _ _ _ _ _ (core_phys _ _ _ _ Hc) E1) as [Ht _].
+  destruct (alloc_page_took _ _ _ _ _ _ _ (core_phys _ Hc) E1) as [Ht _].
   pose proof (coreX_took _ _ _ _ _ _ _ Hc Ht) as Hc1.
   set (pg := mkPage pid va pa (N.of_nat di) uni) in *.
-  destruct (core_update _ _ _ [] (pt s) (pid, va) pg di Hc1 Hf eq_refl eq_refl E2) as (Hc2 & Hsub & Hk).
-  splits; auto.
-  - constructor; cbn; auto.
-    + rewrite Hm. auto.
-    + apply (tk_geom _ _ _ _ _ _ Ht).
-    + apply (tk_kind _ _ _ _ _ _ Ht).
-    + intros q Hq. apply (Hsub q) in Hq. destruct Hq as [<-|Hq]; auto.
-      right. apply (tk_avail _ _ _ _ _ _ Ht). cbn; auto.
-    + apply (tk_mono _ _ _ _ _ _ Ht).
-    + intros k. rewrite Hk. auto.
-  - intros d Hn Hu. cbn. f_equal.
-    pose proof (alloc_page_real _ _ _ _ _ _ _ _ (core_phys _ _ _ _ Hc) Hn Hu E1) as Ho.
+  rewrite Hm. unfold amem in Hf.
+  destruct (alookup keqb (pid, va) (pt s)) as [old|] eqn:El; [|congruence].
+  destruct (core_update _ _ _ (g_leaked s) (pt s) (pid, va) pg old di Hc1 El eq_refl eq_refl E2) as (Hc2 & Hsub & Hk).
+  cbn. splits; auto.
+  - apply (tk_geom _ _ _ _ _ _ Ht).
+  - apply (tk_kind _ _ _ _ _ _ Ht).
+  - intros q Hq. destruct (Hsub q Hq) as [->|Hx]; auto.
+    right. apply (tk_avail _ _ _ _ _ _ Ht). cbn; auto.
+  - intros d Hn Hu. f_equal.
+    pose proof (alloc_page_real _ _ _ _ _ _ _ _ (core_phys _ Hc) Hn Hu E1) as Ho.
     pose proof (owned_dev_of_pa _ _ _ _ _ _ (tk_inv _ _ _ _ _ _ Ht) Ho). congruence.
 Qed.
 
@@ -853,10 +948,10 @@ Proof.
 Qed.
 
 Lemma remove_page_spec pid va s s' :
-  core (psz s) (devs s) (total s) (pt s) -> mirror s = pt s ->
+  cst s -> mirror s = pt s ->
   remove_page pid va s = Some s' ->
   exists pg, alookup keqb (pid, va) (pt s) = Some pg /\
-  core (psz s) (devs s') (total s) (pt s') /\ mirror s' = pt s' /\
+  coreX (psz s) (devs s') (total s) (g_leaked s) (pt s') /\ mirror s' = pt s' /\
   s' = s <| devs := devs s' |> <| mirror := mirror s' |> <| pt := pt s' |> /\
   pt s' = adel keqb (pid, va) (pt s) /\
   geom (devs s') = geom (devs s) /\ map d_kind (devs s') = map d_kind (devs s) /\
@@ -871,7 +966,8 @@ Proof.
   { destruct Hc as (_ & _ & Hf). rewrite Forall_forall in Hf.
     apply (alookup_In keqb keqb_eq) in E1. apply Hf in E1. destruct E1 as (E & _). cbn in E. congruence. }
   rewrite Hk.
-  destruct (core_remove _ _ _ _ _ _ _ Hc E1 E2) as (C1 & C2 & C3 & C4 & C5).
+  destruct (core_remove _ _ _ _ _ _ _ Hc E1) as (C1 & C2).
+  destruct (coreX_release _ _ _ _ _ _ _ C1 E2) as (C3 & C4 & C5 & C6).
   exists pg. cbn. splits; auto.
 Qed.
 
@@ -879,9 +975,9 @@ Lemma of_nat_succ_mul j p : N.of_nat (S j) * p = p + N.of_nat j * p.
 Proof. rewrite Nat2N.inj_succ, N.mul_succ_l. lia. Qed.
 
 Lemma free_loop_spec k : forall pid va s s',
-  core (psz s) (devs s) (total s) (pt s) -> mirror s = pt s ->
+  cst s -> mirror s = pt s ->
   free_loop k pid va s = Some s' ->
-  core (psz s) (devs s') (total s) (pt s') /\ mirror s' = pt s' /\
+  coreX (psz s) (devs s') (total s) (g_leaked s) (pt s') /\ mirror s' = pt s' /\
   s' = s <| devs := devs s' |> <| mirror := mirror s' |> <| pt := pt s' |> /\
   geom (devs s') = geom (devs s) /\ map d_kind (devs s') = map d_kind (devs s) /\
   (forall i, (i < k)%nat -> alookup keqb (pid, va + N.of_nat i * psz s) (pt s') = None /\
@@ -898,11 +994,11 @@ Proof.
     + intros q. split; auto. intros [Hq|(i & pg & Hi & _)]; auto. lia.
   - destruct (remove_page pid va s) as [s1|] eqn:E; [|congruence].
     destruct (remove_page_spec _ _ _ _ Hc Hm E) as (pg & R1 & R2 & R3 & R4 & R5 & R6 & R7 & R8).
-    assert (Hp : psz s1 = psz s /\ total s1 = total s) by (rewrite R4; destruct s; cbn; auto).
-    destruct Hp as [Hp Ht].
+    assert (Hp : psz s1 = psz s /\ total s1 = total s /\ g_leaked s1 = g_leaked s) by (rewrite R4; destruct s; cbn; auto).
+    destruct Hp as (Hp & Ht & Hlk).
     assert (Hpos := psz_pos s).
-    apply IH in H; [|rewrite Hp, Ht; auto|auto].
-    rewrite Hp, Ht in H. destruct H as (A1 & A2 & A3 & A4 & A5 & A6 & A7 & A8 & A9).
+    apply IH in H; [|unfold cst; rewrite Hp, Ht, Hlk; auto|auto].
+    rewrite Hp, Ht, Hlk in H. destruct H as (A1 & A2 & A3 & A4 & A5 & A6 & A7 & A8 & A9).
     assert (Hkey : forall i, (pid, va + psz s + N.of_nat i * psz s) = (pid, va + N.of_nat (S i) * psz s)).
     { intros i. rewrite of_nat_succ_mul. f_equal. lia. }
     assert (Hne : forall i, (pid, va + N.of_nat (S i) * psz s) <> (pid, va)).
@@ -933,10 +1029,11 @@ Qed.
 
 (** * Invariant preservation *)
 Lemma Inv_ext s s' : lps s' = lps s -> devs s' = devs s -> total s' = total s -> pt s' = pt s ->
-  mirror s' = mirror s -> next_va s' = next_va s -> g_bufs s' = g_bufs s -> Inv s -> Inv s'.
+  mirror s' = mirror s -> next_va s' = next_va s -> g_bufs s' = g_bufs s -> g_leaked s' = g_leaked s ->
+  Inv s -> Inv s'.
 Proof.
-  intros E1 E2 E3 E4 E5 E6 E7. unfold Inv, bufs_ok, next_va_of, psz.
-  rewrite E1, E2, E3, E4, E5, E6, E7. auto.
+  intros E1 E2 E3 E4 E5 E6 E7 E8. unfold Inv, cst, bufs_ok, next_va_of, psz.
+  rewrite E1, E2, E3, E4, E5, E6, E7, E8. auto.
 Qed.
 
 Definition handout (s s' : st) : Prop :=
@@ -945,10 +1042,11 @@ Definition handout (s s' : st) : Prop :=
 Lemma grow_Inv s s' : Inv s -> grow s s' -> Inv s' /\ handout s s'.
 Proof.
   intros (I1 & I2 & I3 & I4) [A1 A2 A3 A4 A5 A6 A7 A8]. split; [|exact A6].
-  assert (E : lps s' = lps s /\ total s' = total s /\ next_va s' = next_va s /\ g_bufs s' = g_bufs s)
+  assert (E : lps s' = lps s /\ total s' = total s /\ next_va s' = next_va s /\ g_bufs s' = g_bufs s /\
+              g_leaked s' = g_leaked s)
     by (rewrite A3; destruct s; cbn; auto).
-  destruct E as (E1 & E2 & E3 & E4).
-  unfold Inv, bufs_ok, next_va_of, psz in *. rewrite E1, E2, E3, E4. auto.
+  destruct E as (E1 & E2 & E3 & E4 & E5).
+  unfold Inv, cst, bufs_ok, next_va_of, psz in *. rewrite E1, E2, E3, E4, E5. auto.
 Qed.
 
 Lemma Forall_aset {K V} eqb (P : K * V -> Prop) k v l : Forall P l -> P (k, v) -> Forall P (aset eqb k v l).
@@ -1005,8 +1103,14 @@ Proof.
     unfold buf_pid, buf_lo in *. cbn in *. rewrite Heq, F3 in Hb2. subst va. unfold next_va_of. exact Hb2.
 Qed.
 
+Lemma grow_cst s s' : grow s s' -> cst s'.
+Proof.
+  intros G. destruct (frame3_fields _ _ (gr_frame _ _ G)) as (Hp & Ht & Hl).
+  unfold cst. rewrite Hp, Ht, Hl. apply (gr_core _ _ G).
+Qed.
+
 Lemma remap_all_grow pid ids : forall calls s s',
-  core (psz s) (devs s) (total s) (pt s) -> mirror s = pt s ->
+  cst s -> mirror s = pt s ->
   remap_all pid ids calls s = Some s' -> grow s s'.
 Proof.
   induction calls as [|[[a b] i] r IH]; cbn [remap_all]; intros s s' Hc Hm H.
@@ -1015,9 +1119,8 @@ Proof.
     destruct (remap pid a b (N.to_nat dv) s) as [s1|] eqn:E; [|congruence].
     apply remap_grow in E; auto. destruct E as [G _].
     eapply grow_trans; [exact G|].
-    destruct (frame_psz _ _ (gr_frame _ _ G)) as [Hp Ht].
     apply IH; auto.
-    + rewrite Hp, Ht. apply (gr_core _ _ G).
+    + apply (grow_cst _ _ G).
     + apply (gr_mirror _ _ G).
 Qed.
 
@@ -1029,16 +1132,16 @@ Proof.
   apply free_loop_spec in H; cbn; auto.
   cbn in H. destruct H as (A1 & A2 & A3 & A4 & A5 & A6 & A7 & A8 & A9).
   assert (F : lps s' = lps s /\ total s' = total s /\ next_va s' = next_va s /\ g_bufs s' = g_bufs s /\
-              ctxs s' = ctxs s /\ crashed s' = crashed s)
+              ctxs s' = ctxs s /\ crashed s' = crashed s /\ g_leaked s' = g_leaked s)
     by (rewrite A3; destruct s; cbn; splits; auto).
-  destruct F as (F1 & F2 & F3 & F4 & F5 & F6). splits; auto.
-  unfold Inv, bufs_ok, next_va_of, psz in *. rewrite F1, F2, F3, F4. auto.
+  destruct F as (F1 & F2 & F3 & F4 & F5 & F6 & F7). splits; auto.
+  unfold Inv, cst, bufs_ok, next_va_of, psz in *. rewrite F1, F2, F3, F4, F7. auto.
 Qed.
 
 (** * Initial state *)
 Definition devs_ok (ps : N) (s : st) : Prop :=
   phys_inv ps (devs s) (total s) [] /\ pt s = [] /\ mirror s = [] /\ next_va s = [] /\ g_bufs s = [] /\
-  crashed s = false /\ psz s = ps.
+  crashed s = false /\ psz s = ps /\ g_leaked s = [].
 
 Lemma layout_snoc l : forall start tot d, layout start l tot -> d_base d = tot ->
   layout start (l ++ [d]) (tot + d_size d).
@@ -1051,42 +1154,48 @@ Qed.
 Lemma phys_add_dev ps l tot live k size mem nx : phys_inv ps l tot live -> (ps | size) ->
   phys_inv ps (l ++ [mkDev k tot size tot [] mem nx]) (tot + size) live.
 Proof.
-  intros (H1 & H2 & H3 & H4 & H5 & H6) Hs. unfold phys_inv. splits; auto.
+  intros (H1 & H2 & H3 & H4 & H5 & H6 & H7) Hs. unfold phys_inv. splits; auto.
   - apply N.divide_add_r; auto.
   - apply (layout_snoc l ps tot (mkDev k tot size tot [] mem nx)); auto.
   - apply Forall_app. split; auto. constructor; auto.
     unfold dev_wf, d_hi; cbn. splits; auto; try lia. constructor.
   - intros p Hp. destruct (H6 p Hp) as (Ha & i & d & Hn & Ht). split; auto.
     exists i, d. split; auto. rewrite nth_error_app1; auto. eapply nth_error_lt; eauto.
+  - intros i d q Hi Hq Ht. destruct (Nat.lt_ge_cases i (length l)) as [Hlt|Hge].
+    + rewrite nth_error_app1 in Hi by auto. eapply H7; eauto.
+    + rewrite nth_error_app2 in Hi by auto. destruct (i - length l)%nat as [|j]; cbn in Hi.
+      * inversion Hi; subst. unfold taken in Ht. cbn in Ht. lia.
+      * destruct j; cbn in Hi; congruence.
 Qed.
 
 Lemma reg_dev_ok ps k size s : devs_ok ps s -> (ps | size) -> devs_ok ps (reg_dev k size s).
 Proof.
-  intros (H1 & H2 & H3 & H4 & H5 & H6 & H7) Hs. unfold devs_ok, reg_dev. cbn. splits; auto.
+  intros (H1 & H2 & H3 & H4 & H5 & H6 & H7 & H8) Hs. unfold devs_ok, reg_dev. cbn. splits; auto.
   apply phys_add_dev; auto.
 Qed.
 
 Lemma init_ok l gpus : l <= 32 -> devs_ok (2 ^ l) (init l gpus).
 Proof.
   intros Hl. unfold init.
-  assert (H0 : devs_ok (2 ^ l) (reg_dev KCpu CPU_BYTES (mkSt l [] (2 ^ l) [] [] [] [] [] 0 false []))).
+  assert (H0 : devs_ok (2 ^ l) (reg_dev KCpu CPU_BYTES (mkSt l [] (2 ^ l) [] [] [] [] [] 0 false [] []))).
   { apply reg_dev_ok.
     - unfold devs_ok, phys_inv. cbn. splits; auto.
       + apply N.neq_0_lt_0. apply N.pow_nonzero. lia.
       + apply N.divide_refl.
       + constructor.
       + intros p [].
+      + intros i d q Hi. destruct i; cbn in Hi; congruence.
     - unfold CPU_BYTES. exists (2 ^ (32 - l)). change (4 * 2 ^ 30) with (2 ^ 32).
       rewrite <- N.pow_add_r. f_equal. lia. }
-  revert H0. generalize (reg_dev KCpu CPU_BYTES (mkSt l [] (2 ^ l) [] [] [] [] [] 0 false [])).
+  revert H0. generalize (reg_dev KCpu CPU_BYTES (mkSt l [] (2 ^ l) [] [] [] [] [] 0 false [] [])).
   induction gpus as [|n gpus IH]; cbn; intros s Hs; auto.
   apply IH. apply reg_dev_ok; auto. apply N.divide_factor_r.
 Qed.
 
 Lemma init_Inv l gpus : l <= 32 -> Inv (init l gpus) /\ crashed (init l gpus) = false.
 Proof.
-  intros Hl. destruct (init_ok l gpus Hl) as (H1 & H2 & H3 & H4 & H5 & H6 & H7).
-  split; auto. unfold Inv, core, coreX, bufs_ok. rewrite H2, H3, H4, H5, H7. cbn. splits; auto; constructor.
+  intros Hl. destruct (init_ok l gpus Hl) as (H1 & H2 & H3 & H4 & H5 & H6 & H7 & H8).
+  split; auto. unfold Inv, cst, coreX, bufs_ok. rewrite H2, H3, H4, H5, H7, H8. cbn. splits; auto; constructor.
 Qed.
 
 (** * One API call *)
@@ -1115,7 +1224,7 @@ Qed.
 Lemma unify_Inv s ids : Inv s ->
   Inv (s <| devs := devs s ++ [mkDev KUnified (total s) 0 (total s) [] ids 0] |>).
 Proof.
-  intros ((P & K & E) & I2 & I3 & B1 & B2). unfold Inv, bufs_ok, next_va_of, psz, core, coreX in *. cbn in *.
+  intros ((P & K & E) & I2 & I3 & B1 & B2). unfold Inv, cst, bufs_ok, next_va_of, psz, core, coreX in *. cbn in *.
   splits; auto.
   - pose proof (phys_add_dev _ _ _ _ KUnified 0 ids 0%nat P (N.divide_0_r _)) as H.
     rewrite N.add_0_r in H. exact H.
@@ -1180,8 +1289,13 @@ Proof.
   - (* OMig *) destruct (nth_error (ctxs s) (N.to_nat c)) as [x|]; cbn [fst] in *; [|split; auto; apply handout_same; auto].
     destruct (pt_find s (c_pid x) va) as [old|]; [|cbn in Hnc; congruence].
     destruct (alloc_given (c_pid x) (N.to_nat (gpu + 1)) va true s) as [[pg s']|] eqn:E; [|cbn in Hnc; congruence].
-    pose proof HI as (I1 & I2 & _).
-    destruct (alloc_given_grow _ _ _ _ _ _ _ I1 I2 E) as (G & Hk & Hpid & Hva & Hpt & Hdev).
+    pose proof HI as (I1 & I2 & I3 & B1 & B2).
+    destruct (alloc_given_spec _ _ _ _ _ _ _ I1 I2 E) as (G1 & G2 & G3 & G4 & G5 & Hk & Hpid & Hva & Hpt & Hnew & Hdev).
+    assert (F : lps s' = lps s /\ total s' = total s /\ next_va s' = next_va s /\ g_bufs s' = g_bufs s)
+      by (rewrite G3; destruct s; cbn; auto).
+    destruct F as (F1 & F2 & F3 & F4).
+    assert (J : Inv s').
+    { unfold Inv, cst, bufs_ok, next_va_of, psz in *. rewrite F1, F2, F3, F4. splits; auto. }
     assert (Hd : p_dev pg = gpu + 1).
     { destruct (nth_error (devs s) (N.to_nat (gpu + 1))) as [d|] eqn:En.
       - rewrite (Hdev d eq_refl (Hg d En)). apply N2Nat.id.
@@ -1189,12 +1303,12 @@ Proof.
     assert (Hpg : mkPage (p_pid pg) (p_va pg) (p_pa pg) (gpu + 1) (p_unified pg) = pg)
       by (destruct pg; cbn in *; congruence).
     rewrite Hpg in *. rewrite Hpid, Hva in *.
-    unfold pt_update in *. rewrite Hpt in *.
+    unfold pt_update in *. rewrite Hpt in Hnc |- *.
     destruct (amem keqb (c_pid x, va) (aset keqb (c_pid x, va) pg (pt s))); [|cbn in Hnc; congruence].
-    cbn [fst] in *. rewrite (aset_idem keqb keqb_refl).
-    destruct (grow_Inv _ _ HI G) as [J Hh]. rewrite <- Hpt. split.
+    cbn [fst] in *. rewrite (aset_idem keqb keqb_refl). rewrite <- Hpt.
+    split.
     + eapply Inv_ext; [..|exact J]; reflexivity.
-    + intros p Hp. apply Hh. exact Hp.
+    + intros p Hp. apply Hnew. exact Hp.
   - (* ORmFreed *) destruct (nth_error (ctxs s) (N.to_nat c)); cbn [fst] in *; [|split; auto; apply handout_same; auto].
     split; [apply set_ctx_Inv; auto | apply handout_same; reflexivity].
 Qed.
@@ -1236,18 +1350,19 @@ Lemma Inv_pages s k pg : Inv s -> In (k, pg) (pt s) ->
 Proof.
   intros ((P & K & E) & _) Hin. rewrite Forall_forall in E. destruct (E _ Hin) as (E1 & E2 & di & E3 & E4).
   cbn in *. assert (Hp : In (p_pa pg) (pas (pt s))) by (unfold pas; apply (in_map (fun e => p_pa (snd e)) _ _ Hin)).
-  pose proof P as (_ & _ & _ & W & _ & L). destruct (L _ Hp) as (Ha & i & d & Hn & Ht).
+  pose proof P as (_ & _ & _ & W & _ & L & _).
+  destruct (L _ (proj2 (in_app_iff _ _ _) (or_intror Hp))) as (Ha & i & d & Hn & Ht).
   assert (i = di).
   { assert (Ho : owned (devs s) (p_pa pg) i) by (exists d; auto).
     pose proof (owned_dev_of_pa _ _ _ _ _ _ P Ho). congruence. }
   subst i. splits; auto.
   - rewrite Forall_forall in W. pose proof (taken_in_range _ _ _ (W d (nth_error_In _ _ Hn)) Ht) as Hr.
     unfold d_hi in Hr. exists di, d. splits; auto; try apply Ht; lia.
-  - intros Hav. eapply avail_not_live; eauto.
+  - intros Hav. eapply avail_not_live; eauto. apply in_app_iff. auto.
 Qed.
 
 Lemma Inv_distinct s : Inv s -> NoDup (pas (pt s)) /\ NoDup (map fst (pt s)).
-Proof. intros ((P & K & E) & _). destruct P as (_ & _ & _ & _ & N & _). auto. Qed.
+Proof. intros ((P & K & E) & _). destruct P as (_ & _ & _ & _ & N & _). apply NoDup_app_r in N. auto. Qed.
 
 Lemma Inv_free_lists s i d : Inv s -> nth_error (devs s) i = Some d ->
   NoDup (d_tail d) /\ (forall p, is_free (psz s) d p -> (psz s | p) /\ d_base d <= p < d_base d + d_size d).
@@ -1397,7 +1512,7 @@ Definition keys_below (s : st) : Prop :=
 Definition Inv2 (s : st) : Prop := Inv s /\ allocs_ok s /\ keys_below s.
 
 Lemma remap_all_keys pid ids : forall calls s s',
-  core (psz s) (devs s) (total s) (pt s) -> mirror s = pt s ->
+  cst s -> mirror s = pt s ->
   remap_all pid ids calls s = Some s' -> map fst (pt s') = map fst (pt s).
 Proof.
   induction calls as [|[[a b] i] r IH]; cbn [remap_all]; intros s s' Hc Hm H.
@@ -1405,9 +1520,8 @@ Proof.
   - destruct (nth_error ids (N.to_nat i)) as [dv|]; [|congruence].
     destruct (remap pid a b (N.to_nat dv) s) as [s1|] eqn:E; [|congruence].
     apply remap_grow in E; auto. destruct E as [G Hk].
-    destruct (frame_psz _ _ (gr_frame _ _ G)) as [Hp Ht].
     rewrite <- Hk. apply IH; auto.
-    + rewrite Hp, Ht. apply (gr_core _ _ G).
+    + apply (grow_cst _ _ G).
     + apply (gr_mirror _ _ G).
 Qed.
 
@@ -1577,8 +1691,10 @@ Proof.
   - destruct (pt_find s (c_pid x) va) as [old|]; [|cbn in Hnc; congruence].
     destruct (alloc_given (c_pid x) (N.to_nat (gpu + 1)) va true s) as [[pg s']|] eqn:E; [|cbn in Hnc; congruence].
     pose proof HI as (I1 & I2 & _).
-    destruct (alloc_given_grow _ _ _ _ _ _ _ I1 I2 E) as (G & Hk & Hpid & Hva & Hpt & _).
-    destruct (grow_fields _ _ G) as (F1 & F2 & F3 & _).
+    destruct (alloc_given_spec _ _ _ _ _ _ _ I1 I2 E) as (_ & _ & G3 & _ & _ & Hk & Hpid & Hva & Hpt & _).
+    assert (F : lps s' = lps s /\ next_va s' = next_va s /\ allocs s' = allocs s)
+      by (rewrite G3; destruct s; cbn; auto).
+    destruct F as (F1 & F2 & F3).
     destruct (pt_update _ _ (pt s')) as [pt'|] eqn:E2; [|cbn in Hnc; congruence]. cbn [fst] in *.
     apply pt_update_spec in E2. destruct E2 as [Hm ->]. apply Same; auto. cbn.
     destruct (aset_split keqb keqb_eq _ (mkPage (p_pid pg) (p_va pg) (p_pa pg) (gpu + 1) (p_unified pg)) _ Hm)
@@ -1589,7 +1705,7 @@ Qed.
 
 (** ** calls that cannot panic *)
 Lemma alloc_loop_ok k : forall pid va dv uni s d,
-  core (psz s) (devs s) (total s) (pt s) -> mirror s = pt s -> (psz s | va) ->
+  cst s -> mirror s = pt s -> (psz s | va) ->
   nth_error (devs s) dv = Some d -> is_unified (d_kind d) = false ->
   N.of_nat k <= free_count (psz s) d ->
   (forall i, (i < k)%nat -> amem keqb (pid, va + N.of_nat i * psz s) (pt s) = false) ->
@@ -1597,7 +1713,7 @@ Lemma alloc_loop_ok k : forall pid va dv uni s d,
 Proof.
   induction k as [|k IH]; intros pid va dv uni s d Hc Hm Ha Hn Hu Hcap Hfresh; [eexists; reflexivity|].
   assert (Hpos := psz_pos s).
-  pose proof (core_phys _ _ _ _ Hc) as Hp. pose proof Hp as (_ & _ & _ & W & _).
+  pose proof (core_phys _ Hc) as Hp. pose proof Hp as (_ & _ & _ & W & _).
   assert (Hwf : dev_wf (psz s) d) by (rewrite Forall_forall in W; apply W; eapply nth_error_In; eauto).
   destruct (dev_pop_count _ _ Hpos Hwf ltac:(lia)) as (p & d' & Hpop & Hcnt).
   assert (Hpr : pop_real (psz s) dv (devs s) = Some (p, upd_nth dv d' (devs s)))
@@ -1631,7 +1747,7 @@ Proof.
 Qed.
 
 Lemma free_loop_ok k : forall pid va s,
-  core (psz s) (devs s) (total s) (pt s) -> mirror s = pt s ->
+  cst s -> mirror s = pt s ->
   (forall i, (i < k)%nat -> amem keqb (pid, va + N.of_nat i * psz s) (pt s) = true) ->
   exists s', free_loop k pid va s = Some s'.
 Proof.
@@ -1647,10 +1763,10 @@ Proof.
     rewrite (alookup_amem keqb _ _ _ El). eexists; reflexivity. }
   destruct Hrm as (s1 & Hrm). cbn [free_loop]. rewrite Hrm.
   destruct (remove_page_spec _ _ _ _ Hc Hm Hrm) as (pg' & R1 & R2 & R3 & R4 & R5 & _).
-  assert (Hp : psz s1 = psz s /\ total s1 = total s) by (rewrite R4; destruct s; cbn; auto).
-  destruct Hp as [Hp Ht].
+  assert (Hp : psz s1 = psz s /\ total s1 = total s /\ g_leaked s1 = g_leaked s) by (rewrite R4; destruct s; cbn; auto).
+  destruct Hp as (Hp & Ht & Hlk).
   apply IH.
-  - rewrite Hp, Ht. auto.
+  - unfold cst. rewrite Hp, Ht, Hlk. auto.
   - auto.
   - intros i Hi. rewrite Hp, R5. specialize (Hpres (S i) ltac:(lia)). unfold amem in *.
     rewrite (alookup_adel_other keqb keqb_eq).
@@ -1658,39 +1774,607 @@ Proof.
     + intros Heq. inversion Heq. lia.
 Qed.
 
-Definition real_dev (s : st) (i : nat) (need : N) : Prop :=
-  exists d, nth_error (devs s) i = Some d /\ is_unified (d_kind d) = false /\ need <= free_count (psz s) d.
-
-(** calls inside the API contract and the capacity of the (ordinary) target
-    device; Distribute, migration preparation and unified targets are not
-    covered by this theorem *)
-Definition op_ok (s : st) (o : op) : Prop :=
-  match o with
-  | OInit | OInitPid _ | ORmFreed _ => True
-  | OUnify ids => (0 < length ids)%nat /\ all_gpus (devs s) ids = true
-  | OSelect c d => (N.to_nat d < length (devs s))%nat
-  | OAlloc c bytes => forall x, nth_error (ctxs s) (N.to_nat c) = Some x ->
-      0 < bytes /\ real_dev s (c_cur x) (num_pages (psz s) bytes)
-  | OAllocU c bytes => 0 < bytes /\ real_dev s 1 (num_pages (psz s) bytes)
-  | OFree c ptr => forall x, nth_error (ctxs s) (N.to_nat c) = Some x ->
-      amem keqb (c_pid x, ptr) (allocs s) = true
-  | _ => False
-  end.
-
-Lemma allocate_ok pid bytes dv uni s : Inv2 s -> 0 < bytes -> real_dev s dv (num_pages (psz s) bytes) ->
-  exists r, allocate pid bytes dv uni s = Some r.
+(** * Conservation: nothing is lost except the pages migration preparation drops *)
+Lemma Inv_conservation s i d q : Inv s -> nth_error (devs s) i = Some d -> (psz s | q) ->
+  d_base d <= q < d_base d + d_size d ->
+  (is_free (psz s) d q \/ In q (pas (pt s)) \/ In q (g_leaked s)) /\
+  (is_free (psz s) d q -> ~ In q (pas (pt s)) /\ ~ In q (g_leaked s)) /\
+  (In q (pas (pt s)) -> ~ In q (g_leaked s)).
 Proof.
-  intros (HI & _ & K) Hb (d & Hn & Hu & Hcap). pose proof HI as (I1 & I2 & I3 & _).
-  unfold allocate. replace (bytes =? 0) with false by (symmetry; apply N.eqb_neq; lia).
-  unfold alloc_pages. assert (Hpos := psz_pos s).
-  destruct (alloc_loop_ok (N.to_nat (num_pages (psz s) bytes)) pid (next_va_of s pid) dv uni s d) as (s' & Hs'); auto.
-  - apply next_va_aligned; auto.
-  - rewrite N2Nat.id. auto.
-  - intros i Hi. apply (amem_false_iff keqb keqb_eq). intros Hin.
-    unfold keys_below in K. rewrite Forall_forall in K. apply K in Hin. cbn in Hin. nia.
-  - rewrite Hs'. eexists; reflexivity.
+  intros ((P & _) & _) Hn Hq Hr. pose proof P as (Hps & _ & _ & W & Hnd & _ & Hcomp).
+  rewrite Forall_forall in W. pose proof (W d (nth_error_In _ _ Hn)) as (Hb & Hs & Hl & Hbl & Hlh & Hndt & Hf).
+  splits.
+  - destruct (N.lt_ge_cases q (d_lo d)) as [Hlt|Hge].
+    + destruct (in_dec N.eq_dec q (d_tail d)) as [Hin|Hnin]; [left; right; auto|].
+      assert (Ht : taken d q) by (split; [lia|auto]).
+      specialize (Hcomp i d q Hn Hq Ht). apply in_app_iff in Hcomp. tauto.
+    + left. left. unfold d_hi. split; auto. lia.
+  - intros Hfree. assert (Hav : avail (psz s) (devs s) q) by (exists i, d; auto).
+    pose proof (avail_not_live _ _ _ _ _ P Hav) as Hnl. rewrite in_app_iff in Hnl. tauto.
+  - intros Hin Hlk. apply (NoDup_app_disj _ _ q Hnd); auto.
 Qed.
 
+(** only migration preparation drops pages *)
+Lemma alloc_loop_leak k : forall pid va dv uni s s', alloc_loop k pid va dv uni s = Some s' -> g_leaked s' = g_leaked s.
+Proof.
+  induction k as [|k IH]; cbn [alloc_loop]; intros pid va dv uni s s' H; [inversion H; auto|].
+  destruct (alloc_page _ _ _) as [[pa l']|]; [|congruence].
+  destruct (dev_of_pa l' pa); [|congruence]. destruct (pt_insert _ _ _); [|congruence].
+  apply IH in H. exact H.
+Qed.
+
+Lemma given_loop_leak : forall X pid va uni s s', given_loop pid va uni X s = Some s' -> g_leaked s' = g_leaked s.
+Proof.
+  induction X as [|pa X IH]; cbn [given_loop]; intros pid va uni s s' H; [inversion H; auto|].
+  destruct (dev_of_pa _ pa); [|congruence]. destruct (pt_update _ _ _); [|congruence].
+  destruct (alookup keqb (pid, va) (mirror s)).
+  - destruct (dev_of_pa _ _); [|congruence]. apply IH in H. exact H.
+  - apply IH in H. exact H.
+Qed.
+
+Lemma remap_leak pid va b dv s s' : remap pid va b dv s = Some s' -> g_leaked s' = g_leaked s.
+Proof.
+  unfold remap. destruct (alloc_multi _ _ _ _) as [[X l']|]; [|congruence]. intros H.
+  apply given_loop_leak in H. exact H.
+Qed.
+
+Lemma remap_all_leak pid ids : forall calls s s', remap_all pid ids calls s = Some s' -> g_leaked s' = g_leaked s.
+Proof.
+  induction calls as [|[[a b] i] r IH]; cbn [remap_all]; intros s s' H; [inversion H; auto|].
+  destruct (nth_error ids _); [|congruence]. destruct (remap _ _ _ _ s) as [s1|] eqn:E; [|congruence].
+  apply IH in H. apply remap_leak in E. congruence.
+Qed.
+
+Lemma free_loop_leak k : forall pid va s s', free_loop k pid va s = Some s' -> g_leaked s' = g_leaked s.
+Proof.
+  induction k as [|k IH]; cbn [free_loop]; intros pid va s s' H; [inversion H; auto|].
+  destruct (remove_page pid va s) as [s1|] eqn:E; [|congruence]. apply IH in H. rewrite H.
+  unfold remove_page in E. destruct (alookup _ _ _); [|congruence]. destruct (dev_of_pa _ _); [|congruence].
+  destruct (pt_remove _ _); [|congruence]. inversion E; subst. reflexivity.
+Qed.
+
+Definition is_mig (o : op) : bool := match o with OMig _ _ _ => true | _ => false end.
+
+Lemma step_leak s o : is_mig o = false -> g_leaked (fst (step s o)) = g_leaked s.
+Proof.
+  intros Hm. unfold step. destruct (crashed s); auto.
+  destruct o; try discriminate; unfold with_ctx, crash;
+    try (destruct (nth_error (ctxs s) (N.to_nat c)) as [x|]; cbn [fst]; auto).
+  - reflexivity.
+  - destruct (length ids =? 0)%nat; auto. destruct (negb _); auto.
+  - destruct (length (devs s) <=? N.to_nat d)%nat; auto.
+  - unfold allocate. destruct (bytes =? 0); auto. unfold alloc_pages.
+    destruct (alloc_loop _ _ _ _ _ s) as [s1|] eqn:E; auto. cbn. apply alloc_loop_leak in E. exact E.
+  - unfold allocate. destruct (bytes =? 0); auto. unfold alloc_pages.
+    destruct (alloc_loop _ _ _ _ _ s) as [s1|] eqn:E; auto. cbn. apply alloc_loop_leak in E. exact E.
+  - unfold free. destruct (alookup _ _ (allocs s)); auto.
+    destruct (free_loop _ _ _ _) as [s1|] eqn:E; auto. cbn. apply free_loop_leak in E. exact E.
+  - destruct (remap _ _ _ _ s) as [s1|] eqn:E; auto. cbn. apply remap_leak in E. exact E.
+  - unfold distribute. destruct ids as [|a [|b r]]; auto;
+      (destruct (negb _); auto; destruct (_ =? _)%nat; auto; destruct (bytes =? 0); auto;
+       destruct (dist_plan _ _ _ _) as [calls res];
+       destruct (remap_all _ _ calls s) as [s1|] eqn:E; auto; cbn; apply remap_all_leak in E; exact E).
+Qed.
+
+Lemma run_leak ops : forall s, forallb (fun o => negb (is_mig o)) ops = true -> g_leaked (run s ops) = g_leaked s.
+Proof.
+  induction ops as [|o r IH]; intros s H; auto.
+  cbn in H. apply andb_true_iff in H. destruct H as [H1 H2].
+  change (run s (o :: r)) with (run (fst (step s o)) r). rewrite IH; auto. apply step_leak.
+  destruct (is_mig o); auto; discriminate.
+Qed.
+
+(** * Crash freedom: Remap, Distribute, migration preparation, unified devices *)
+Lemma dev_empty_count ps d : 0 < ps -> dev_wf ps d -> 1 <= free_count ps d -> dev_empty d = false.
+Proof.
+  intros Hps Hwf Hc. destruct (free_count_aligned ps d Hps Hwf) as (m & Hm & Hf).
+  unfold dev_empty. destruct (d_lo d <? d_hi d) eqn:E; auto. cbn.
+  apply N.ltb_ge in E. assert (m = 0) by nia. subst m.
+  destruct (d_tail d); auto. cbn in Hf. lia.
+Qed.
+
+Lemma pop_n_ok ps n : forall d, 0 < ps -> dev_wf ps d -> N.of_nat n <= free_count ps d ->
+  exists pas d', pop_n ps n d = Some (pas, d').
+Proof.
+  induction n as [|n IH]; intros d Hps Hwf Hc; [eexists _, _; reflexivity|].
+  destruct (dev_pop_count ps d Hps Hwf ltac:(lia)) as (p & d' & Hp & Hcnt).
+  destruct (dev_pop_spec _ _ _ _ Hps Hwf Hp) as (Hwf' & _).
+  destruct (IH d' Hps Hwf' ltac:(lia)) as (pas & d'' & Hn).
+  cbn. rewrite Hp, Hn. eexists _, _; reflexivity.
+Qed.
+
+Lemma multi_real_ok ps n i l d : 0 < ps -> nth_error l i = Some d -> dev_wf ps d ->
+  1 <= free_count ps d -> N.of_nat n <= free_count ps d ->
+  exists pas l', multi_real ps n i l = Some (pas, l').
+Proof.
+  intros Hps Hn Hwf H1 Hc. unfold multi_real. rewrite Hn, (dev_empty_count ps d Hps Hwf H1).
+  destruct (pop_n_ok ps n d Hps Hwf Hc) as (pas & d' & ->). eexists _, _; reflexivity.
+Qed.
+
+Lemma cst_wf s i d : cst s -> nth_error (devs s) i = Some d -> dev_wf (psz s) d.
+Proof.
+  intros ((_ & _ & _ & W & _) & _) Hn. rewrite Forall_forall in W. apply W. eapply nth_error_In; eauto.
+Qed.
+
+Lemma amem_keys {V W} k (a : list (key * V)) (b : list (key * W)) :
+  map fst a = map fst b -> amem keqb k a = amem keqb k b.
+Proof.
+  intros H. destruct (amem keqb k b) eqn:E.
+  - apply (amem_true_iff keqb keqb_eq). rewrite H. apply (amem_true_iff keqb keqb_eq). auto.
+  - apply (amem_false_iff keqb keqb_eq). rewrite H. apply (amem_false_iff keqb keqb_eq). auto.
+Qed.
+
+Lemma given_loop_ok : forall X pid va uni s,
+  coreX (psz s) (devs s) (total s) (X ++ g_leaked s) (pt s) -> mirror s = pt s ->
+  (forall i, (i < length X)%nat -> amem keqb (pid, va + N.of_nat i * psz s) (pt s) = true) ->
+  exists s', given_loop pid va uni X s = Some s'.
+Proof.
+  induction X as [|pa X IH]; intros pid va uni s Hc Hm Hpres; [eexists; reflexivity|].
+  assert (Hpos := psz_pos s).
+  pose proof Hc as (P & K & F). pose proof P as (_ & _ & _ & _ & _ & L & _).
+  destruct (L pa (or_introl eq_refl)) as (_ & di & Ho).
+  pose proof (owned_dev_of_pa _ _ _ _ _ _ P Ho) as Hd.
+  assert (H0 : amem keqb (pid, va) (pt s) = true).
+  { specialize (Hpres 0%nat ltac:(cbn; lia)). replace (va + N.of_nat 0 * psz s) with va in Hpres by lia. auto. }
+  cbn [given_loop]. rewrite Hd. unfold pt_update. rewrite H0. rewrite Hm.
+  unfold amem in H0. destruct (alookup keqb (pid, va) (pt s)) as [old|] eqn:El; [|congruence].
+  rewrite Forall_forall in F. destruct (F _ (alookup_In keqb keqb_eq _ _ _ El)) as (_ & _ & dj & _ & E4). cbn in E4.
+  rewrite E4.
+  set (pg := mkPage pid va pa (N.of_nat di) uni).
+  cbn [app] in Hc.
+  destruct (core_update _ _ _ (X ++ g_leaked s) (pt s) (pid, va) pg old di Hc El eq_refl eq_refl Hd) as (Hc1 & _ & Hk).
+  destruct (coreX_release _ _ _ _ _ _ _ Hc1 E4) as (Hc2 & _).
+  apply IH; cbn; auto.
+  intros i Hi. rewrite (amem_keys _ _ (pt s) Hk).
+  specialize (Hpres (S i) ltac:(cbn; lia)). rewrite of_nat_succ_mul in Hpres.
+  match goal with |- context [N.of_nat i * ?z] => change z with (psz s) end.
+  replace (va + psz s + N.of_nat i * psz s) with (va + (psz s + N.of_nat i * psz s)) by lia. auto.
+Qed.
+
+(** a block of n pages can be taken from device dv with one allocateMultiplePages call *)
+Definition block_ok (s : st) (dv : nat) (n : N) : Prop :=
+  exists d, nth_error (devs s) dv = Some d /\
+    if is_unified (d_kind d)
+    then exists m e, nth_error (d_members d) (d_next d) = Some m /\ nth_error (devs s) m = Some e /\
+                     1 <= free_count (psz s) e /\ n <= free_count (psz s) e
+    else 1 <= free_count (psz s) d /\ n <= free_count (psz s) d.
+
+Definition range_mapped (s : st) (pid va n : N) : Prop :=
+  forall i, i < n -> amem keqb (pid, va + i * psz s) (pt s) = true.
+
+Lemma remap_ok pid va bytes dv s : cst s -> mirror s = pt s ->
+  block_ok s dv (remap_count (psz s) bytes) -> range_mapped s pid va (remap_count (psz s) bytes) ->
+  exists s', remap pid va bytes dv s = Some s'.
+Proof.
+  intros Hc Hm (d & Hn & Hb) Hr. assert (Hpos := psz_pos s). unfold remap.
+  set (n := remap_count (psz s) bytes) in *.
+  assert (Ham : exists X l', alloc_multi (psz s) (N.to_nat n) dv (devs s) = Some (X, l')).
+  { unfold alloc_multi. rewrite Hn. destruct (is_unified (d_kind d)).
+    - destruct Hb as (m & e & Hm1 & Hm2 & H1 & H2). rewrite Hm1.
+      destruct (multi_real_ok (psz s) (N.to_nat n) m (devs s) e Hpos Hm2 (cst_wf _ _ _ Hc Hm2) H1) as (X & l' & ->);
+        [rewrite N2Nat.id; auto|]. eexists _, _; reflexivity.
+    - destruct Hb as [H1 H2].
+      apply (multi_real_ok (psz s) (N.to_nat n) dv (devs s) d Hpos Hn (cst_wf _ _ _ Hc Hn) H1).
+      rewrite N2Nat.id; auto. }
+  destruct Ham as (X & l' & Ham). rewrite Ham.
+  destruct (alloc_multi_took _ _ _ _ _ _ _ _ (core_phys _ Hc) Ham) as [Ht Hlen].
+  pose proof (coreX_took _ _ _ _ _ _ _ Hc Ht) as Hc1. apply coreX_rev in Hc1.
+  apply given_loop_ok; cbn; auto.
+  intros i Hi. change (psz (s <| devs := l' |>)) with (psz s). apply Hr. lia.
+Qed.
+
+(** how the number of free pages of the devices changes *)
+Lemma dev_pop_count_eq ps d p d' : 0 < ps -> dev_wf ps d -> dev_pop ps d = Some (p, d') ->
+  free_count ps d = free_count ps d' + 1.
+Proof.
+  intros Hps Hwf Hp.
+  assert (H1 : 1 <= free_count ps d).
+  { destruct (free_count_aligned ps d Hps Hwf) as (m & Hm & Hf). unfold dev_pop in Hp.
+    destruct (d_lo d <? d_hi d) eqn:E.
+    - apply N.ltb_lt in E. assert (1 <= m) by nia. lia.
+    - destruct (d_tail d); [congruence|]. cbn [length] in Hf. lia. }
+  destruct (dev_pop_count ps d Hps Hwf H1) as (p2 & d2 & Hp2 & Hc). congruence.
+Qed.
+
+Lemma pop_n_count ps n : forall d pas d', 0 < ps -> dev_wf ps d -> pop_n ps n d = Some (pas, d') ->
+  free_count ps d = free_count ps d' + N.of_nat n /\ d_kind d' = d_kind d.
+Proof.
+  induction n as [|n IH]; cbn; intros d pas d' Hps Hwf H.
+  - inversion H; subst. split; auto. lia.
+  - destruct (dev_pop ps d) as [[p d1]|] eqn:E; [|congruence].
+    destruct (pop_n ps n d1) as [[r d2]|] eqn:E2; [|congruence]. inversion H; subst.
+    destruct (dev_pop_spec _ _ _ _ Hps Hwf E) as (Hwf1 & _ & _ & _ & _ & Hk & _).
+    pose proof (dev_pop_count_eq _ _ _ _ Hps Hwf E). destruct (IH _ _ _ Hps Hwf1 E2) as [Hc Hk2].
+    split; [lia|congruence].
+Qed.
+
+(** free pages and kind of the device with ID j *)
+Definition fcount (ps : N) (l : list dev) (j : nat) : option (N * bool) :=
+  match nth_error l j with Some e => Some (free_count ps e, is_unified (d_kind e)) | None => None end.
+
+Definition not_less (ps : N) (l l' : list dev) (n : N) : Prop :=
+  forall j c k, fcount ps l j = Some (c, k) -> exists c', fcount ps l' j = Some (c', k) /\ c <= c' + n.
+
+Lemma not_less_refl ps l : not_less ps l l 0.
+Proof. intros j c k H. exists c. split; auto. lia. Qed.
+
+Lemma not_less_trans ps l1 l2 l3 a b : not_less ps l1 l2 a -> not_less ps l2 l3 b -> not_less ps l1 l3 (a + b).
+Proof.
+  intros H1 H2 j c k H. destruct (H1 _ _ _ H) as (c' & H' & Hc). destruct (H2 _ _ _ H') as (c'' & H'' & Hc').
+  exists c''. split; auto. lia.
+Qed.
+
+Lemma not_less_upd ps l i d d' n : nth_error l i = Some d -> d_kind d' = d_kind d ->
+  free_count ps d <= free_count ps d' + n -> not_less ps l (upd_nth i d' l) n.
+Proof.
+  intros Hn Hk Hc j c k H. unfold fcount in *. destruct (Nat.eq_dec i j) as [->|Hne].
+  - rewrite Hn in H. inversion H; subst. rewrite nth_upd_nth_same by (eapply nth_error_lt; eauto).
+    eexists. split; [rewrite Hk; reflexivity|]. auto.
+  - rewrite nth_upd_nth_other by auto. destruct (nth_error l j); [|congruence]. inversion H; subst.
+    eexists. split; [reflexivity|]. lia.
+Qed.
+
+Lemma not_less_bump ps l i : not_less ps l (bump i l) 0.
+Proof.
+  unfold bump. destruct (nth_error l i) as [d|] eqn:Hn; [|apply not_less_refl].
+  eapply not_less_upd; eauto. unfold free_count, d_hi. cbn. lia.
+Qed.
+
+Lemma not_less_push ps l i p : not_less ps l (push_to i p l) 0.
+Proof.
+  unfold push_to. destruct (nth_error l i) as [d|] eqn:Hn; [|apply not_less_refl].
+  eapply not_less_upd; eauto. unfold free_count, dev_push, d_hi. cbn. rewrite app_length. cbn. lia.
+Qed.
+
+Lemma not_less_weaken ps l l' a b : not_less ps l l' a -> a <= b -> not_less ps l l' b.
+Proof. intros H Hab j c k Hj. destruct (H _ _ _ Hj) as (c' & H1 & H2). exists c'. split; auto. lia. Qed.
+
+Lemma multi_real_not_less ps n i l pas l' : 0 < ps -> Forall (dev_wf ps) l ->
+  multi_real ps n i l = Some (pas, l') -> not_less ps l l' (N.of_nat n).
+Proof.
+  intros Hps W H. unfold multi_real in H. destruct (nth_error l i) as [d|] eqn:Hn; [|congruence].
+  destruct (dev_empty d); [congruence|]. destruct (pop_n ps n d) as [[r d']|] eqn:E; [|congruence].
+  inversion H; subst. rewrite Forall_forall in W.
+  destruct (pop_n_count _ _ _ _ _ Hps (W d (nth_error_In _ _ Hn)) E) as [Hc Hk].
+  eapply not_less_upd; eauto. lia.
+Qed.
+
+Lemma alloc_multi_not_less ps n i l pas l' : 0 < ps -> Forall (dev_wf ps) l ->
+  alloc_multi ps n i l = Some (pas, l') -> not_less ps l l' (N.of_nat n).
+Proof.
+  intros Hps W H. unfold alloc_multi in H. destruct (nth_error l i) as [d|]; [|congruence].
+  destruct (is_unified (d_kind d)).
+  - destruct (nth_error (d_members d) (d_next d)) as [m|]; [|congruence].
+    destruct (multi_real ps n m l) as [[r l0]|] eqn:E; [|congruence]. inversion H; subst.
+    replace (N.of_nat n) with (N.of_nat n + 0) by lia.
+    eapply not_less_trans; [eapply multi_real_not_less; eauto|apply not_less_bump].
+  - eapply multi_real_not_less; eauto.
+Qed.
+
+Lemma given_loop_not_less : forall X pid va uni s s', given_loop pid va uni X s = Some s' ->
+  not_less (psz s) (devs s) (devs s') 0.
+Proof.
+  induction X as [|pa X IH]; cbn [given_loop]; intros pid va uni s s' H; [inversion H; apply not_less_refl|].
+  destruct (dev_of_pa _ pa); [|congruence]. destruct (pt_update _ _ _); [|congruence].
+  destruct (alookup keqb (pid, va) (mirror s)).
+  - destruct (dev_of_pa _ _) as [dj|]; [|congruence]. apply IH in H. cbn in H.
+    replace 0 with (0 + 0) by lia. eapply not_less_trans; [apply not_less_push|exact H].
+  - apply IH in H. exact H.
+Qed.
+
+Lemma remap_not_less pid va bytes dv s s' : cst s -> remap pid va bytes dv s = Some s' ->
+  not_less (psz s) (devs s) (devs s') (remap_count (psz s) bytes).
+Proof.
+  intros Hc H. unfold remap in H. destruct (alloc_multi _ _ _ _) as [[X l']|] eqn:E; [|congruence].
+  pose proof Hc as ((_ & _ & _ & W & _) & _).
+  apply alloc_multi_not_less in E; auto; [|apply psz_pos]. rewrite N2Nat.id in E.
+  apply given_loop_not_less in H. cbn in H.
+  replace (remap_count (psz s) bytes) with (remap_count (psz s) bytes + 0) by lia.
+  eapply not_less_trans; eauto.
+Qed.
+
+(** ** the Remap calls Distribute issues *)
+Definition call_ok (ps addr np nG : N) (c : N * N * N) : Prop :=
+  exists off k, fst (fst c) = addr + off * ps /\ snd (fst c) = k * ps /\ 1 <= k /\ off + k <= np /\ snd c < nG.
+
+Definition calls_pages (ps : N) (calls : list (N * N * N)) : N :=
+  fold_right (fun c acc => remap_count ps (snd (fst c)) + acc) 0 calls.
+
+Lemma remap_count_mul ps k : 0 < ps -> remap_count ps (k * ps) = k.
+Proof.
+  intros Hps. unfold remap_count. destruct (k * ps =? 0) eqn:E.
+  - apply N.eqb_eq in E. nia.
+  - apply N.eqb_neq in E. assert (1 <= k) by nia.
+    replace (k * ps - 1) with ((k - 1) * ps + (ps - 1)) by nia.
+    rewrite N.div_add_l by lia. rewrite N.div_small by lia. lia.
+Qed.
+
+Lemma upto_In n i : In i (upto n) <-> i < n.
+Proof.
+  unfold upto. rewrite in_map_iff. split.
+  - intros (j & <- & Hj). apply in_seq in Hj. lia.
+  - intros H. exists (N.to_nat i). rewrite N2Nat.id. split; auto. apply in_seq. lia.
+Qed.
+
+Lemma upto_length n : N.of_nat (length (upto n)) = n.
+Proof. unfold upto. rewrite map_length, seq_length. apply N2Nat.id. Qed.
+
+Lemma calls_pages_app ps a b : calls_pages ps (a ++ b) = calls_pages ps a + calls_pages ps b.
+Proof. induction a; cbn; auto. fold (calls_pages ps (a0 ++ b)). fold (calls_pages ps a0). lia. Qed.
+
+Lemma calls_pages_const ps k (f g : N -> N) l : 0 < ps ->
+  calls_pages ps (map (fun i => (f i, k * ps, g i)) l) = N.of_nat (length l) * k.
+Proof.
+  intros Hps. induction l as [|a l IH]; cbn [map length calls_pages fold_right]; [lia|].
+  fold (calls_pages ps (map (fun i => (f i, k * ps, g i)) l)). rewrite IH. cbn [fst snd].
+  rewrite remap_count_mul by auto. lia.
+Qed.
+
+Lemma calls_pages_unit ps (f g : N -> N) l : 0 < ps ->
+  calls_pages ps (map (fun i => (f i, ps, g i)) l) = N.of_nat (length l).
+Proof.
+  intros Hps. induction l as [|a l IH]; cbn [map length calls_pages fold_right]; [lia|].
+  fold (calls_pages ps (map (fun i => (f i, ps, g i)) l)). rewrite IH. cbn [fst snd].
+  replace ps with (1 * ps) at 2 by lia. rewrite remap_count_mul by auto. lia.
+Qed.
+
+Lemma dist_plan_spec ps addr bytes nG : 0 < ps -> 0 < nG ->
+  let np := num_pages ps bytes in
+  Forall (call_ok ps addr np nG) (fst (dist_plan ps addr bytes nG)) /\
+  calls_pages ps (fst (dist_plan ps addr bytes nG)) <= np.
+Proof.
+  intros Hps HnG np. unfold dist_plan. fold np.
+  set (per := np / nG). set (use0 := if 0 <? per then np / per else 0).
+  set (use := if nG <? use0 then nG else use0). set (rem := np mod nG).
+  set (last := if use =? 0 then 0 else use - 1). cbn [fst].
+  assert (Hdm : np = nG * per + rem) by (apply N.div_mod; lia).
+  assert (Hrem : rem < nG) by (apply N.mod_lt; lia).
+  assert (Huse : use <= nG) by (subst use; destruct (nG <? use0) eqn:E; [lia|apply N.ltb_ge in E; lia]).
+  assert (Hper : 0 < use -> 1 <= per).
+  { subst use use0. destruct (0 <? per) eqn:E; [apply N.ltb_lt in E; lia|].
+    destruct (nG <? 0) eqn:E2; [apply N.ltb_lt in E2; lia|lia]. }
+  assert (Hlast : last < nG) by (subst last; destruct (use =? 0) eqn:E; [lia|apply N.eqb_neq in E; lia]).
+  split.
+  - apply Forall_app. split; apply Forall_forall; intros c Hc; apply in_map_iff in Hc; destruct Hc as (i & <- & Hi);
+      apply upto_In in Hi; unfold call_ok; cbn [fst snd].
+    + exists (i * per), per. splits; auto; try lia; try nia.
+    + exists (per * use + i), 1. splits; auto; try lia; try nia.
+  - rewrite calls_pages_app.
+    rewrite (calls_pages_const ps per (fun i => addr + i * per * ps) (fun i => i)) by auto.
+    rewrite (calls_pages_unit ps (fun i => addr + (per * use + i) * ps) (fun _ => last)) by auto.
+    rewrite !upto_length. nia.
+Qed.
+
+Definition dist_target (s : st) (need : N) (dv : N) : Prop :=
+  exists d, nth_error (devs s) (N.to_nat dv) = Some d /\ is_unified (d_kind d) = false /\
+            need <= free_count (psz s) d.
+
+Lemma range_mapped_keys s s' pid va n : psz s' = psz s -> map fst (pt s') = map fst (pt s) ->
+  range_mapped s pid va n -> range_mapped s' pid va n.
+Proof. intros Hp Hk H i Hi. rewrite Hp. rewrite (amem_keys _ _ (pt s) Hk). auto. Qed.
+
+Lemma remap_all_ok pid ids addr np : forall calls s,
+  cst s -> mirror s = pt s ->
+  Forall (call_ok (psz s) addr np (N.of_nat (length ids))) calls ->
+  Forall (dist_target s (calls_pages (psz s) calls)) ids ->
+  range_mapped s pid addr np ->
+  exists s', remap_all pid ids calls s = Some s'.
+Proof.
+  induction calls as [|[[a b] i] r IH]; intros s Hc Hm Hcalls Htg Hr; [eexists; reflexivity|].
+  assert (Hpos := psz_pos s).
+  inversion Hcalls as [|? ? Hc0 Hrest]; subst. destruct Hc0 as (off & k & Ha & Hb & Hk1 & Hok & Hi).
+  cbn [fst snd] in *. subst a b.
+  cbn [remap_all].
+  destruct (nth_error ids (N.to_nat i)) as [dv|] eqn:En; [|apply nth_error_None in En; lia].
+  rewrite Forall_forall in Htg. destruct (Htg dv (nth_error_In _ _ En)) as (d & Hd & Hu & Hcap).
+  cbn [calls_pages fold_right fst snd] in Hcap. fold (calls_pages (psz s) r) in Hcap.
+  rewrite remap_count_mul in Hcap by auto.
+  destruct (remap_ok pid (addr + off * psz s) (k * psz s) (N.to_nat dv) s Hc Hm) as (s1 & Hs1).
+  - exists d. rewrite Hd, Hu, remap_count_mul by auto. split; auto. lia.
+  - rewrite remap_count_mul by auto. intros j Hj.
+    replace (addr + off * psz s + j * psz s) with (addr + (off + j) * psz s) by lia. apply Hr. lia.
+  - rewrite Hs1.
+    destruct (remap_grow _ _ _ _ _ _ Hc Hm Hs1) as [G Hkeys].
+    destruct (frame3_fields _ _ (gr_frame _ _ G)) as (Hp & Ht & Hl).
+    pose proof (remap_not_less _ _ _ _ _ _ Hc Hs1) as Hnl. rewrite remap_count_mul in Hnl by auto.
+    apply IH.
+    + apply (grow_cst _ _ G).
+    + apply (gr_mirror _ _ G).
+    + rewrite Hp. auto.
+    + rewrite Hp. apply Forall_forall. intros dv' Hin. destruct (Htg dv' Hin) as (d' & Hd' & Hu' & Hcap').
+      cbn [calls_pages fold_right fst snd] in Hcap'. fold (calls_pages (psz s) r) in Hcap'.
+      rewrite remap_count_mul in Hcap' by auto.
+      destruct (Hnl (N.to_nat dv') (free_count (psz s) d') false) as (c' & Hc' & Hle).
+      { unfold fcount. rewrite Hd', Hu'. auto. }
+      unfold fcount in Hc'. destruct (nth_error (devs s1) (N.to_nat dv')) as [e|] eqn:Ee; [|congruence].
+      inversion Hc' as [[Hc1 Hc2]]. exists e. rewrite Hp. splits; auto. lia.
+    + eapply range_mapped_keys; eauto.
+Qed.
+
+Lemma dist_target_mono s a b dv : dist_target s b dv -> a <= b -> dist_target s a dv.
+Proof. intros (d & H1 & H2 & H3) Hab. exists d. splits; auto. lia. Qed.
+
+Definition dist_ok (s : st) (pid addr bytes : N) (ids : list N) : Prop :=
+  match ids with
+  | [_] => True
+  | _ => addr mod psz s = 0 /\ 0 < bytes /\ (0 < length ids)%nat /\
+         range_mapped s pid addr (num_pages (psz s) bytes) /\
+         Forall (dist_target s (num_pages (psz s) bytes)) ids
+  end.
+
+Lemma distribute_ok pid addr bytes ids s : Inv s -> dist_ok s pid addr bytes ids ->
+  exists r, distribute pid addr bytes ids s = Some r.
+Proof.
+  intros (I1 & I2 & _) Hok. assert (Hpos := psz_pos s). unfold distribute.
+  assert (Hgen : addr mod psz s = 0 /\ 0 < bytes /\ (0 < length ids)%nat /\
+         range_mapped s pid addr (num_pages (psz s) bytes) /\
+         Forall (dist_target s (num_pages (psz s) bytes)) ids ->
+         exists r, (if negb (addr mod psz s =? 0) then None
+           else if (length ids =? 0)%nat then None
+           else if bytes =? 0 then None
+           else let '(calls, res) := dist_plan (psz s) addr bytes (N.of_nat (length ids)) in
+                match remap_all pid ids calls s with
+                | None => None
+                | Some s' => Some (res, s')
+                end) = Some r).
+  { intros (H1 & H2 & H3 & H4 & H5). rewrite H1. cbn [negb N.eqb].
+    replace (length ids =? 0)%nat with false by (symmetry; apply Nat.eqb_neq; lia).
+    replace (bytes =? 0) with false by (symmetry; apply N.eqb_neq; lia).
+    destruct (dist_plan_spec (psz s) addr bytes (N.of_nat (length ids)) Hpos ltac:(lia)) as [Hc Hsum].
+    destruct (dist_plan (psz s) addr bytes (N.of_nat (length ids))) as [calls res]. cbn [fst] in *.
+    destruct (remap_all_ok pid ids addr (num_pages (psz s) bytes) calls s I1 I2 Hc) as (s' & ->); auto.
+    - eapply Forall_impl; [|exact H5]. intros dv Hd. eapply dist_target_mono; eauto.
+    - eexists; reflexivity. }
+  unfold dist_ok in Hok. destruct ids as [|a [|b r]]; auto. eexists; reflexivity.
+Qed.
+
+(** ** migration preparation *)
+Lemma alloc_given_ok pid dv va uni s d : cst s -> mirror s = pt s ->
+  nth_error (devs s) dv = Some d -> is_unified (d_kind d) = false -> 1 <= free_count (psz s) d ->
+  amem keqb (pid, va) (pt s) = true ->
+  exists r, alloc_given pid dv va uni s = Some r.
+Proof.
+  intros Hc Hm Hn Hu Hcap Hk. assert (Hpos := psz_pos s).
+  destruct (dev_pop_count _ _ Hpos (cst_wf _ _ _ Hc Hn) Hcap) as (p & d' & Hpop & _).
+  assert (Hpr : pop_real (psz s) dv (devs s) = Some (p, upd_nth dv d' (devs s)))
+    by (unfold pop_real; rewrite Hn, Hpop; auto).
+  destruct (pop_real_took _ _ _ _ _ _ _ (core_phys _ Hc) Hpr) as [Ht Ho].
+  pose proof (owned_dev_of_pa _ _ _ _ _ _ (tk_inv _ _ _ _ _ _ Ht) Ho) as Hd.
+  unfold alloc_given, alloc_page. rewrite Hn, Hu, Hpr, Hd. unfold pt_update. rewrite Hk. eexists; reflexivity.
+Qed.
+
+Lemma aligned_div_mul ps a : 0 < ps -> (ps | a) -> a / ps * ps = a.
+Proof. intros Hps [k ->]. rewrite N.div_mul by lia. auto. Qed.
+
+(** ** unified devices: page-by-page allocation *)
+Lemma rot_hits len next j : (j < len)%nat -> exists i, (i < len)%nat /\ Nat.modulo (next + i) len = j.
+Proof.
+  intros Hj. assert (Hl : len <> 0%nat) by lia.
+  set (r := Nat.modulo next len). assert (Hr : (r < len)%nat) by (apply Nat.mod_upper_bound; auto).
+  exists (Nat.modulo (j + len - r) len). split; [apply Nat.mod_upper_bound; auto|].
+  rewrite Nat.add_mod by auto. fold r. rewrite Nat.mod_mod by auto.
+  rewrite <- (Nat.mod_small r len) at 1 by auto. rewrite <- Nat.add_mod by auto.
+  replace (r + (j + len - r))%nat with (j + 1 * len)%nat by lia.
+  rewrite Nat.mod_add by auto. apply Nat.mod_small. auto.
+Qed.
+
+Definition nonempty_at (l : list dev) (m : nat) : Prop :=
+  exists e, nth_error l m = Some e /\ dev_empty e = false.
+
+Lemma select_member_some l u : (exists j m, nth_error (d_members u) j = Some m /\ nonempty_at l m) ->
+  exists m', select_member l u = Some m' /\ nonempty_at l m'.
+Proof.
+  intros (j & m & Hj & Hne). unfold select_member.
+  set (len := length (d_members u)).
+  set (F := fun acc i => match nth_error (d_members u) (Nat.modulo (d_next u + i) len) with
+                         | None => acc
+                         | Some m0 => match nth_error l m0 with
+                                      | None => acc
+                                      | Some d => if dev_empty d then acc else Some m0
+                                      end
+                         end).
+  assert (Hlen : (j < len)%nat) by (eapply nth_error_lt; eauto).
+  destruct (rot_hits len (d_next u) j Hlen) as (i0 & Hi0 & Hrot).
+  assert (Hgen : forall is acc,
+            ((exists m', acc = Some m' /\ nonempty_at l m') \/ In i0 is) ->
+            exists m', fold_left F is acc = Some m' /\ nonempty_at l m').
+  { induction is as [|a r IH]; cbn [fold_left]; intros acc [Hg|Hin]; auto; [destruct Hin| |].
+    - apply IH. left. unfold F. destruct (nth_error (d_members u) (Nat.modulo (d_next u + a) len)) as [m0|]; auto.
+      destruct (nth_error l m0) as [d|] eqn:Ed; auto. destruct (dev_empty d) eqn:Ee; auto.
+      exists m0. split; [reflexivity|]. exists d. split; assumption.
+    - destruct Hin as [->|Hin]; [|apply IH; auto].
+      apply IH. left. unfold F. rewrite Hrot, Hj. destruct Hne as (e & He & Hee). rewrite He, Hee.
+      exists m. split; [reflexivity|]. exists e. split; assumption. }
+  apply Hgen. right. apply in_seq. lia.
+Qed.
+
+Lemma nonempty_count ps d : 0 < ps -> dev_wf ps d -> dev_empty d = false -> 1 <= free_count ps d.
+Proof.
+  intros Hps Hwf He. destruct (free_count_aligned ps d Hps Hwf) as (m & Hm & Hf).
+  unfold dev_empty in He. destruct (d_lo d <? d_hi d) eqn:E.
+  - apply N.ltb_lt in E. assert (1 <= m) by nia. lia.
+  - cbn in He. destruct (d_tail d); [discriminate|]. cbn [length] in Hf. lia.
+Qed.
+
+Definition rich (ps : N) (l : list dev) (mem : list nat) (n : N) : Prop :=
+  exists j m c kd, nth_error mem j = Some m /\ fcount ps l m = Some (c, kd) /\ n <= c.
+
+Lemma pop_real_not_less ps i l p l' : 0 < ps -> Forall (dev_wf ps) l ->
+  pop_real ps i l = Some (p, l') -> not_less ps l l' 1.
+Proof.
+  intros Hps W H. unfold pop_real in H. destruct (nth_error l i) as [d|] eqn:Hn; [|congruence].
+  destruct (dev_pop ps d) as [[p0 d']|] eqn:E; [|congruence]. inversion H; subst.
+  rewrite Forall_forall in W. pose proof (W d (nth_error_In _ _ Hn)) as Hwf.
+  destruct (dev_pop_spec _ _ _ _ Hps Hwf E) as (_ & _ & _ & _ & _ & Hk & _).
+  pose proof (dev_pop_count_eq _ _ _ _ Hps Hwf E). eapply not_less_upd; eauto. lia.
+Qed.
+
+Lemma alloc_page_unified_ok ps i l u k : 0 < ps -> Forall (dev_wf ps) l ->
+  nth_error l i = Some u -> is_unified (d_kind u) = true -> rich ps l (d_members u) (N.of_nat (S k)) ->
+  exists p l' u', alloc_page ps i l = Some (p, l') /\ rich ps l' (d_members u) (N.of_nat k) /\
+    nth_error l' i = Some u' /\ d_members u' = d_members u /\ d_kind u' = d_kind u.
+Proof.
+  intros Hps W Hn Hu (j & m & c & kd & Hj & Hc & Hle). rewrite Forall_forall in W.
+  assert (Hne : nonempty_at l m).
+  { unfold fcount in Hc. destruct (nth_error l m) as [e|] eqn:He; [|congruence]. inversion Hc; subst.
+    exists e. split; auto. apply (dev_empty_count ps); auto; [apply W; eapply nth_error_In; eauto|lia]. }
+  destruct (select_member_some l u (ex_intro _ j (ex_intro _ m (conj Hj Hne)))) as (m' & Hsel & (e' & He' & Hee')).
+  pose proof (W e' (nth_error_In _ _ He')) as Hwf'.
+  destruct (dev_pop_count ps e' Hps Hwf' (nonempty_count ps e' Hps Hwf' Hee')) as (p & d' & Hpop & _).
+  assert (Hpr : pop_real ps m' l = Some (p, upd_nth m' d' l)) by (unfold pop_real; rewrite He', Hpop; auto).
+  unfold alloc_page. rewrite Hn, Hu, Hsel, Hpr.
+  destruct (dev_pop_spec _ _ _ _ Hps Hwf' Hpop) as (_ & _ & _ & _ & _ & Hkd & Hmb & _).
+  assert (Hnl : not_less ps l (bump i (upd_nth m' d' l)) 1).
+  { replace 1 with (1 + 0) by lia. eapply not_less_trans; [eapply pop_real_not_less; eauto|apply not_less_bump].
+    apply Forall_forall. auto. }
+  assert (Hu1 : exists u1, nth_error (upd_nth m' d' l) i = Some u1 /\ d_members u1 = d_members u /\ d_kind u1 = d_kind u).
+  { destruct (Nat.eq_dec m' i) as [->|Hne'].
+    - rewrite Hn in He'. inversion He'; subst. exists d'. rewrite nth_upd_nth_same by (eapply nth_error_lt; eauto). auto.
+    - exists u. rewrite nth_upd_nth_other by auto. auto. }
+  destruct Hu1 as (u1 & Hu1 & Hm1 & Hk1).
+  eexists p, _, _. split; [reflexivity|]. splits.
+  - destruct (Hnl m c kd Hc) as (c' & Hc' & Hle'). exists j, m, c', kd. splits; auto. lia.
+  - unfold bump. rewrite Hu1. apply nth_upd_nth_same. rewrite upd_nth_length. eapply nth_error_lt; eauto.
+  - cbn. auto.
+  - cbn. auto.
+Qed.
+
+Lemma alloc_loop_ok_unified k : forall pid va dv uni s u,
+  cst s -> mirror s = pt s -> (psz s | va) ->
+  nth_error (devs s) dv = Some u -> is_unified (d_kind u) = true ->
+  rich (psz s) (devs s) (d_members u) (N.of_nat k) ->
+  (forall i, (i < k)%nat -> amem keqb (pid, va + N.of_nat i * psz s) (pt s) = false) ->
+  exists s', alloc_loop k pid va dv uni s = Some s'.
+Proof.
+  induction k as [|k IH]; intros pid va dv uni s u Hc Hm Ha Hn Hu Hrich Hfresh; [eexists; reflexivity|].
+  assert (Hpos := psz_pos s). pose proof Hc as ((_ & _ & _ & W & _) & _).
+  destruct (alloc_page_unified_ok _ _ _ _ _ Hpos W Hn Hu Hrich) as (p & l' & u' & Hap & Hrich' & Hn' & Hm' & Hk').
+  destruct (alloc_page_took _ _ _ _ _ _ _ (core_phys _ Hc) Hap) as [Ht (m & Ho)].
+  pose proof (owned_dev_of_pa _ _ _ _ _ _ (tk_inv _ _ _ _ _ _ Ht) Ho) as Hd.
+  assert (Hf0 : amem keqb (pid, va) (pt s) = false).
+  { specialize (Hfresh 0%nat ltac:(lia)). replace (va + N.of_nat 0 * psz s) with va in Hfresh by lia. auto. }
+  cbn [alloc_loop]. rewrite Hap, Hd. unfold pt_insert. rewrite Hf0.
+  set (pg := mkPage pid va p (N.of_nat m) uni).
+  set (s1 := s <| devs := _ |> <| pt := _ |> <| mirror := _ |>).
+  assert (E1 : alloc_loop 1 pid va dv uni s = Some s1).
+  { cbn [alloc_loop]. rewrite Hap, Hd. unfold pt_insert. rewrite Hf0. reflexivity. }
+  pose proof (alloc_loop_grow _ _ _ _ _ _ _ Hc Hm Ha E1) as G.
+  apply (IH pid (va + psz s) dv uni s1 u').
+  - apply (grow_cst _ _ G).
+  - apply (gr_mirror _ _ G).
+  - apply aligned_add; auto.
+  - exact Hn'.
+  - rewrite Hk'. auto.
+  - change (psz s1) with (psz s). change (devs s1) with l'. rewrite Hm'. exact Hrich'.
+  - intros i Hi. change (psz s1) with (psz s).
+    change (pt s1) with (pt s ++ [((pid, va), pg)]).
+    apply (amem_false_iff keqb keqb_eq). rewrite map_app, in_app_iff. cbn. intros [Hin|[Heq|[]]].
+    + specialize (Hfresh (S i) ltac:(lia)). apply (amem_false_iff keqb keqb_eq) in Hfresh.
+      apply Hfresh. rewrite of_nat_succ_mul. replace (va + (psz s + N.of_nat i * psz s)) with (va + psz s + N.of_nat i * psz s) by lia. auto.
+    + inversion Heq. lia.
+Qed.
+
+(** * Calls that cannot panic, collected *)
 Lemma free_ok pid ptr s : Inv2 s -> amem keqb (pid, ptr) (allocs s) = true -> exists s', free pid ptr s = Some s'.
 Proof.
   intros (HI & [A1 _] & _) Hm. pose proof HI as (I1 & I2 & _). unfold free, amem in *.
@@ -1701,10 +2385,67 @@ Proof.
   apply (B3 (N.of_nat i)). cbn. lia.
 Qed.
 
+
+(** n pages can be taken one by one from device dv (Device.allocatePage) *)
+Definition page_target (s : st) (dv : nat) (n : N) : Prop :=
+  exists d, nth_error (devs s) dv = Some d /\
+    if is_unified (d_kind d) then rich (psz s) (devs s) (d_members d) n
+    else n <= free_count (psz s) d.
+
+Lemma allocate_ok pid bytes dv uni s : Inv2 s -> 0 < bytes -> page_target s dv (num_pages (psz s) bytes) ->
+  exists r, allocate pid bytes dv uni s = Some r.
+Proof.
+  intros (HI & _ & K) Hb (d & Hn & Hcap). pose proof HI as (I1 & I2 & I3 & _).
+  unfold allocate. replace (bytes =? 0) with false by (symmetry; apply N.eqb_neq; lia).
+  unfold alloc_pages. assert (Hpos := psz_pos s).
+  assert (Hfresh : forall i, (i < N.to_nat (num_pages (psz s) bytes))%nat ->
+            amem keqb (pid, next_va_of s pid + N.of_nat i * psz s) (pt s) = false).
+  { intros i Hi. apply (amem_false_iff keqb keqb_eq). intros Hin.
+    unfold keys_below in K. rewrite Forall_forall in K. apply K in Hin. cbn in Hin. nia. }
+  assert (Hs : exists s', alloc_loop (N.to_nat (num_pages (psz s) bytes)) pid (next_va_of s pid) dv uni s = Some s').
+  { destruct (is_unified (d_kind d)) eqn:Eu.
+    - eapply alloc_loop_ok_unified; eauto; [apply next_va_aligned; auto|rewrite N2Nat.id; auto].
+    - eapply alloc_loop_ok; eauto; [apply next_va_aligned; auto|rewrite N2Nat.id; auto]. }
+  destruct Hs as (s' & ->). eexists; reflexivity.
+Qed.
+
+(** The preconditions under which the real code does not panic:
+    - Init, InitWithExistingPID, removeFreedBuffers: none;
+    - CreateUnifiedGPU: a non-empty list of real GPUs; SelectGPU: an existing device;
+    - AllocateMemory / AllocateUnifiedMemory of b > 0 bytes, n = ceil(b / page size): the target is an
+      ordinary device with at least n free pages, or a unified device one of whose members has at least n;
+    - FreeMemory: the pointer is the start of a live buffer of that process;
+    - Remap of the n = ceil(bytes / page size) pages from addr: every page of the range is mapped for that
+      process and the target is an ordinary device with at least max(n,1) free pages, or a unified device
+      whose member at the rotation cursor has that many;
+    - Distribute over one GPU: none; over several: addr page aligned, bytes > 0, the n pages of the range
+      mapped, every listed device ordinary with at least n free pages (sufficient, not necessary);
+    - migration preparation: the page is mapped and the target is an ordinary device with a free page. *)
+Definition op_ok (s : st) (o : op) : Prop :=
+  match o with
+  | OInit | OInitPid _ | ORmFreed _ => True
+  | OUnify ids => (0 < length ids)%nat /\ all_gpus (devs s) ids = true
+  | OSelect c d => (N.to_nat d < length (devs s))%nat
+  | OAlloc c bytes => forall x, nth_error (ctxs s) (N.to_nat c) = Some x ->
+      0 < bytes /\ page_target s (c_cur x) (num_pages (psz s) bytes)
+  | OAllocU c bytes => 0 < bytes /\ page_target s 1 (num_pages (psz s) bytes)
+  | OFree c ptr => forall x, nth_error (ctxs s) (N.to_nat c) = Some x ->
+      amem keqb (c_pid x, ptr) (allocs s) = true
+  | ORemap c addr bytes d => forall x, nth_error (ctxs s) (N.to_nat c) = Some x ->
+      block_ok s (N.to_nat d) (remap_count (psz s) bytes) /\
+      range_mapped s (c_pid x) addr (remap_count (psz s) bytes)
+  | ODist c addr bytes ids => forall x, nth_error (ctxs s) (N.to_nat c) = Some x ->
+      dist_ok s (c_pid x) addr bytes ids
+  | OMig c va gpu => forall x, nth_error (ctxs s) (N.to_nat c) = Some x ->
+      amem keqb (c_pid x, va) (pt s) = true /\
+      exists d, nth_error (devs s) (N.to_nat (gpu + 1)) = Some d /\ is_unified (d_kind d) = false /\
+                1 <= free_count (psz s) d
+  end.
+
 Theorem step_no_crash s o : Inv2 s -> crashed s = false -> op_ok s o -> crashed (fst (step s o)) = false.
 Proof.
-  intros H2 Hc Hok. unfold step. rewrite Hc.
-  destruct o; cbn in Hok; try (exfalso; exact Hok); unfold with_ctx.
+  intros H2 Hc Hok. pose proof H2 as (HI & _). unfold step. rewrite Hc.
+  destruct o; cbn in Hok; unfold with_ctx.
   - (* OInit *) cbn. auto.
   - (* OInitPid *) destruct (nth_error (ctxs s) (N.to_nat c)); cbn; auto.
   - (* OUnify *) destruct Hok as [H1 H3].
@@ -1715,19 +2456,48 @@ Proof.
   - (* OAlloc *) destruct (nth_error (ctxs s) (N.to_nat c)) as [x|] eqn:Ex; cbn [fst]; auto.
     destruct (Hok x eq_refl) as [Hb Hr].
     destruct (allocate (c_pid x) bytes (c_cur x) false s) as [[ptr s']|] eqn:E.
-    + cbn. pose proof H2 as (HI & _). unfold allocate in E. destruct (bytes =? 0); [congruence|].
+    + cbn. unfold allocate in E. destruct (bytes =? 0); [congruence|].
       destruct (alloc_pages_Inv _ _ _ _ _ _ _ HI E) as (_ & _ & _ & Hcr & _). congruence.
     + destruct (allocate_ok (c_pid x) bytes (c_cur x) false s H2 Hb Hr) as (r & Hr'). congruence.
   - (* OAllocU *) destruct (nth_error (ctxs s) (N.to_nat c)) as [x|] eqn:Ex; cbn [fst]; auto.
     destruct Hok as [Hb Hr].
     destruct (allocate (c_pid x) bytes 1 true s) as [[ptr s']|] eqn:E.
-    + cbn. pose proof H2 as (HI & _). unfold allocate in E. destruct (bytes =? 0); [congruence|].
+    + cbn. unfold allocate in E. destruct (bytes =? 0); [congruence|].
       destruct (alloc_pages_Inv _ _ _ _ _ _ _ HI E) as (_ & _ & _ & Hcr & _). congruence.
     + destruct (allocate_ok (c_pid x) bytes 1 true s H2 Hb Hr) as (r & Hr'). congruence.
   - (* OFree *) destruct (nth_error (ctxs s) (N.to_nat c)) as [x|] eqn:Ex; cbn [fst]; auto.
     destruct (free (c_pid x) ptr s) as [s'|] eqn:E.
-    + cbn. pose proof H2 as (HI & _). destruct (free_Inv _ _ _ _ HI E) as (_ & _ & _ & Hcr). congruence.
+    + cbn. destruct (free_Inv _ _ _ _ HI E) as (_ & _ & _ & Hcr). congruence.
     + destruct (free_ok (c_pid x) ptr s H2 (Hok x eq_refl)) as (r & Hr'). congruence.
+  - (* ORemap *) destruct (nth_error (ctxs s) (N.to_nat c)) as [x|] eqn:Ex; cbn [fst]; auto.
+    destruct (Hok x eq_refl) as [Hb Hr]. pose proof HI as (I1 & I2 & _).
+    destruct (remap (c_pid x) addr bytes (N.to_nat d) s) as [s'|] eqn:E.
+    + cbn. destruct (remap_grow _ _ _ _ _ _ I1 I2 E) as [G _].
+      destruct (grow_fields _ _ G) as (_ & _ & _ & _ & Hcr). congruence.
+    + destruct (remap_ok (c_pid x) addr bytes (N.to_nat d) s I1 I2 Hb Hr) as (r & Hr'). congruence.
+  - (* ODist *) destruct (nth_error (ctxs s) (N.to_nat c)) as [x|] eqn:Ex; cbn [fst]; auto.
+    destruct (distribute (c_pid x) addr bytes ids s) as [[res s']|] eqn:E.
+    + cbn. pose proof (distribute_grow _ _ _ _ _ _ _ HI E) as G.
+      destruct (grow_fields _ _ G) as (_ & _ & _ & _ & Hcr). congruence.
+    + destruct (distribute_ok (c_pid x) addr bytes ids s HI (Hok x eq_refl)) as (r & Hr'). congruence.
+  - (* OMig *) destruct (nth_error (ctxs s) (N.to_nat c)) as [x|] eqn:Ex; cbn [fst]; auto.
+    destruct (Hok x eq_refl) as (Hk & d & Hd & Hu & Hcap). pose proof HI as (I1 & I2 & _).
+    assert (Hpos := psz_pos s).
+    assert (Hfind : pt_find s (c_pid x) va = alookup keqb (c_pid x, va) (pt s)).
+    { unfold pt_find. unfold amem in Hk. destruct (alookup keqb (c_pid x, va) (pt s)) as [pg0|] eqn:El; [|congruence].
+      pose proof I1 as (_ & _ & F). rewrite Forall_forall in F.
+      destruct (F _ (alookup_In keqb keqb_eq _ _ _ El)) as (E1 & E2 & _). cbn in E1, E2.
+      inversion E1 as [[Hp Hv]]. rewrite <- Hv in E2. rewrite (aligned_div_mul (psz s) va Hpos E2). reflexivity. }
+    rewrite Hfind. unfold amem in Hk. destruct (alookup keqb (c_pid x, va) (pt s)) as [old|] eqn:El; [|congruence].
+    destruct (alloc_given (c_pid x) (N.to_nat (gpu + 1)) va true s) as [[pg s']|] eqn:E.
+    + destruct (alloc_given_spec _ _ _ _ _ _ _ I1 I2 E) as (_ & _ & G3 & _ & _ & Hks & Hpid & Hva & Hpt & _).
+      unfold pt_update. rewrite Hpid, Hva, Hpt.
+      assert (Hm : amem keqb (c_pid x, va) (aset keqb (c_pid x, va) pg (pt s)) = true).
+      { rewrite (amem_keys _ _ (pt s)); [unfold amem; rewrite El; auto|]. rewrite <- Hpt. exact Hks. }
+      rewrite Hm. cbn. rewrite G3. destruct s; cbn in *. exact Hc.
+    + destruct (alloc_given_ok (c_pid x) (N.to_nat (gpu + 1)) va true s d I1 I2 Hd Hu Hcap) as (r & Hr').
+      * unfold amem. rewrite El. auto.
+      * congruence.
   - (* ORmFreed *) destruct (nth_error (ctxs s) (N.to_nat c)); cbn; auto.
 Qed.
 
@@ -1760,3 +2530,4 @@ Proof.
   assert (Ha : allocs (init l gpus) = []) by (unfold init; apply fold_reg_allocs; reflexivity).
   unfold allocs_ok, keys_below. rewrite Ha, H2. cbn. splits; constructor.
 Qed.
+
